@@ -9,6 +9,7 @@ Arguments Z.div : simpl never.
 Arguments Z.odd : simpl never.
 Arguments Z.mul : simpl never.
 Arguments Z.add : simpl never.
+Arguments count_z : simpl never.
 
 (* ---------- one object ---------- *)
 Definition arr (s : sp) : Z := if sp_flag s then 1 else 0.   (* heap arrays owned *)
@@ -24,32 +25,28 @@ Proof. unfold sp_flag. rewrite Zmod_odd. destruct (Z.odd (cf s)); reflexivity. Q
 Lemma zlen_app {A} (a b : list A) : zlen (a ++ b) = zlen a + zlen b.
 Proof. unfold zlen. rewrite app_length. lia. Qed.
 
-Lemma sp_add_hs s h : hs (fst (sp_add s h)) = hs s ++ [h].
-Proof. unfold sp_add. repeat match goal with |- context[if ?b then _ else _] => destruct b end; reflexivity. Qed.
+Lemma zlen_nil_inv {A} (l : list A) : zlen l = 0 -> l = [].
+Proof. destruct l; [reflexivity|]. unfold zlen. cbn [length]. lia. Qed.
 
-Lemma sp_add_val s h : val (fst (sp_add s h)) = val s.
-Proof. unfold sp_add. repeat match goal with |- context[if ?b then _ else _] => destruct b end; reflexivity. Qed.
+Lemma wf_same s s' : cf s' = cf s -> hs s' = hs s -> cap s' = cap s -> wf_sp s -> wf_sp s'.
+Proof. unfold wf_sp. intros -> -> ->. auto. Qed.
 
-Lemma sp_add_wf s h : wf_sp s -> wf_sp (fst (sp_add s h)).
+Lemma arr_same s s' : cf s' = cf s -> arr s' = arr s.
+Proof. unfold arr, sp_flag. intros ->. reflexivity. Qed.
+
+Lemma sp_add_spec s h : wf_sp s ->
+  let r := sp_add s h in
+  wf_sp (fst r) /\ hs (fst r) = hs s ++ [h] /\ val (fst r) = val s /\ typed (fst r) = typed s /\
+  arr (fst r) - arr s = fst (snd r) - snd (snd r).
 Proof.
-  unfold wf_sp, sp_add, sp_count, inline_count. rewrite flag_mod. intros (H0 & HL & HF & HI).
+  intros W. pose proof W as (H0 & HL & HF & HI). cbn zeta.
+  unfold arr. rewrite !flag_mod. unfold wf_sp, sp_add, sp_count, inline_count. rewrite flag_mod.
   destruct (cf s mod 2 =? 1) eqn:F.
-  - destruct (cf s / 2 =? cap s) eqn:E; cbn [fst cf hs cap]; rewrite zlen_app; unfold zlen at 2; cbn [length]; lia.
-  - destruct (cf s / 2 <? 3) eqn:E; cbn [fst cf hs cap]; rewrite zlen_app; unfold zlen at 2; cbn [length]; lia.
-Qed.
-
-(* allocations - frees = change in the number of owned arrays *)
-Lemma sp_add_arr s h : wf_sp s ->
-  arr (fst (sp_add s h)) - arr s = fst (snd (sp_add s h)) - snd (snd (sp_add s h)).
-Proof.
-  intros W. pose proof W as (H0 & HL & HF & HI). unfold arr. rewrite !flag_mod.
-  unfold sp_add, sp_count, inline_count. rewrite flag_mod.
-  destruct (cf s mod 2 =? 1) eqn:F.
-  - destruct (cf s / 2 =? cap s) eqn:E; cbn [fst snd cf];
-      destruct ((cf s + 2) mod 2 =? 1) eqn:G; lia.
-  - destruct (cf s / 2 <? 3) eqn:E; cbn [fst snd cf].
-    + destruct ((cf s + 2) mod 2 =? 1) eqn:G; lia.
-    + destruct ((cf s + 3) mod 2 =? 1) eqn:G; lia.
+  - destruct (cf s / 2 =? cap s) eqn:E; cbn [fst snd cf hs cap typed val]; rewrite zlen_app; unfold zlen at 2; cbn [length];
+      (repeat split; try reflexivity; try lia); destruct ((cf s + 2) mod 2 =? 1) eqn:G; lia.
+  - destruct (cf s / 2 <? 3) eqn:E; cbn [fst snd cf hs cap typed val]; rewrite zlen_app; unfold zlen at 2; cbn [length].
+    + (repeat split; try reflexivity; try lia); destruct ((cf s + 2) mod 2 =? 1) eqn:G; lia.
+    + (repeat split; try reflexivity; try lia); destruct ((cf s + 3) mod 2 =? 1) eqn:G; lia.
 Qed.
 
 (* the first allocation happens exactly at the 4th handle (C20 threshold) *)
@@ -63,30 +60,48 @@ Qed.
 
 Lemma sp_add_all_spec s l : wf_sp s ->
   let r := sp_add_all s l in
-  wf_sp (fst r) /\ hs (fst r) = hs s ++ l /\ val (fst r) = val s /\
+  wf_sp (fst r) /\ hs (fst r) = hs s ++ l /\ val (fst r) = val s /\ typed (fst r) = typed s /\
   arr (fst r) - arr s = fst (snd r) - snd (snd r).
 Proof.
   revert s; induction l as [|h l IH]; intros s W; cbn [sp_add_all].
-  - cbn [fst snd]. rewrite app_nil_r. refine (conj W (conj eq_refl (conj eq_refl _))). lia.
-  - pose proof (sp_add_wf s h W) as W1. pose proof (sp_add_hs s h) as H1.
-    pose proof (sp_add_val s h) as V1. pose proof (sp_add_arr s h W) as A1.
-    destruct (sp_add s h) as [s1 c1]. cbn [fst snd] in *.
+  - cbn [fst snd]. rewrite app_nil_r. refine (conj W (conj eq_refl (conj eq_refl (conj eq_refl _)))). lia.
+  - pose proof (sp_add_spec s h W) as Q. cbn zeta in Q.
+    destruct (sp_add s h) as [s1 c1]. cbn [fst snd] in *. destruct Q as (W1 & H1 & V1 & T1 & A1).
     specialize (IH s1 W1). destruct (sp_add_all s1 l) as [s2 c2]. cbn [fst snd] in *.
-    destruct IH as (W2 & H2 & V2 & A2). refine (conj W2 (conj _ (conj _ _))).
+    destruct IH as (W2 & H2 & V2 & T2 & A2). refine (conj W2 (conj _ (conj _ (conj _ _)))).
     + rewrite H2, H1, <- app_assoc. reflexivity.
+    + congruence.
     + congruence.
     + unfold cadd. cbn [fst snd]. lia.
 Qed.
 
-Lemma wf_empty c v : wf_sp (mkSp 0 [] c v).
+Lemma wf_empty c t v : wf_sp (mkSp 0 [] c t v).
 Proof. unfold wf_sp; cbn. repeat split; try lia; unfold zlen; cbn; lia. Qed.
 
-Lemma arr_empty c v : arr (mkSp 0 [] c v) = 0.
+Lemma wf_single h c t v : wf_sp (mkSp 2 [h] c t v).
+Proof. unfold wf_sp. cbn. unfold zlen. cbn. lia. Qed.
+
+Lemma arr_empty c t v : arr (mkSp 0 [] c t v) = 0.
 Proof. reflexivity. Qed.
+
+(* operator<< : all handles of the source are appended, the source is reset, its array freed *)
+Lemma sp_merge_spec d s : wf_sp d ->
+  let r := sp_merge d s in
+  let d1 := fst (fst r) in
+  wf_sp d1 /\ hs d1 = hs d ++ hs s /\ val d1 = val d /\ typed d1 = typed d /\
+  snd (fst r) = mkSp 0 [] (cap s) (typed s) (val s) /\
+  arr d1 - arr d - arr s = fst (snd r) - snd (snd r).
+Proof.
+  intros W. unfold sp_merge. pose proof (sp_add_all_spec d (hs s) W) as Q. cbn zeta in Q.
+  destruct (sp_add_all d (hs s)) as [d1 c1]. cbn [fst snd] in Q. destruct Q as (W1 & H1 & V1 & T1 & A1).
+  unfold sp_clear_internal. cbn [fst snd].
+  refine (conj W1 (conj H1 (conj V1 (conj T1 (conj eq_refl _))))).
+  unfold cadd. cbn [fst snd]. unfold arr at 3. destruct (sp_flag s); lia.
+Qed.
 
 Lemma sp_pop_spec s : wf_sp s ->
   let r := sp_pop s in
-  wf_sp (fst r) /\ val (fst r) = val s /\ arr (fst r) = arr s /\
+  wf_sp (fst r) /\ val (fst r) = val s /\ typed (fst r) = typed s /\ cap (fst r) = cap s /\ arr (fst r) = arr s /\
   hs s = hs (fst r) ++ olist (snd r) /\
   (sp_count s = 0 -> r = (s, None)).
 Proof.
@@ -96,21 +111,122 @@ Proof.
     pose proof (app_removelast_last 0 NE) as SPLIT.
     assert (zlen (removelast (hs s)) = cf s / 2 - 1) as HL'.
     { rewrite SPLIT in HL at 1. rewrite zlen_app in HL. unfold zlen at 2 in HL. cbn [length] in HL. lia. }
-    refine (conj _ (conj eq_refl (conj _ (conj _ _)))).
+    refine (conj _ (conj eq_refl (conj eq_refl (conj eq_refl (conj _ (conj _ _)))))).
     + unfold wf_sp. cbn [cf hs cap]. rewrite HL'. lia.
     + unfold arr. rewrite !flag_mod. cbn [cf].
       destruct (cf s mod 2 =? 1) eqn:A; destruct ((cf s - 2) mod 2 =? 1) eqn:B; lia.
     + cbn [hs olist]. exact SPLIT.
     + intros Q. lia.
-  - refine (conj W (conj eq_refl (conj eq_refl (conj _ _)))).
+  - refine (conj W (conj eq_refl (conj eq_refl (conj eq_refl (conj eq_refl (conj _ _)))))).
     + cbn [olist]. rewrite app_nil_r. reflexivity.
     + reflexivity.
 Qed.
 
+(* ---------- the awaiter's own handle in a ready list ---------- *)
+Lemma is_drv_eq x : is_drv x = true -> x = driver.
+Proof. unfold is_drv. lia. Qed.
+
+Lemma count_drv_existsb l : existsb is_drv l = false -> count_z driver l = 0%nat.
+Proof.
+  induction l as [|x l IH]; intros H; [reflexivity|]. cbn [existsb] in H. apply orb_false_elim in H as [A B].
+  rewrite count_z_cons, (IH B). unfold is_drv in A. destruct (driver =? x) eqn:E; [lia|reflexivity].
+Qed.
+
+Lemma existsb_drv_count l : existsb is_drv l = true -> (0 < count_z driver l)%nat.
+Proof.
+  intros H. apply existsb_exists in H as (x & I & D). apply is_drv_eq in D. subst. apply count_z_In. exact I.
+Qed.
+
+Lemma forallb_not_drv_count l : forallb not_drv l = true <-> count_z driver l = 0%nat.
+Proof.
+  induction l as [|x l IH]; [split; reflexivity|]. cbn [forallb]. rewrite count_z_cons, andb_true_iff, IH.
+  unfold not_drv, is_drv. destruct (driver =? x) eqn:E; destruct (x =? driver) eqn:E'; try lia; cbn; split; try lia; intros; split; auto; lia.
+Qed.
+
+(* flush up to the awaiter: q = pre ++ [driver] ++ post (or q = pre when it is not there), no driver in pre *)
+Lemma split_drv_spec q :
+  let '(pre, post, found) := split_drv q in
+  q = pre ++ (if found then driver :: post else []) /\ (found = false -> post = []) /\
+  count_z driver pre = 0%nat /\ (found = false -> count_z driver q = 0%nat).
+Proof.
+  induction q as [|x q IH]; cbn [split_drv].
+  - repeat split; reflexivity.
+  - destruct (is_drv x) eqn:D.
+    + apply is_drv_eq in D. subst. cbn [app]. repeat split; try reflexivity; discriminate.
+    + destruct (split_drv q) as [[pre post] found]. destruct IH as (E & P & C & N).
+      assert (driver =? x = false) as NX by (unfold is_drv in D; lia).
+      refine (conj _ (conj P (conj _ _))).
+      * cbn [app]. rewrite <- E. reflexivity.
+      * rewrite count_z_cons, C, NX. reflexivity.
+      * intros F. rewrite count_z_cons, (N F), NX. reflexivity.
+Qed.
+
+Lemma split_drv_counts q y :
+  let '(pre, post, found) := split_drv q in
+  count_z y q = (count_z y pre + count_z y (if found then [driver] else []) + count_z y post)%nat.
+Proof.
+  pose proof (split_drv_spec q) as S. destruct (split_drv q) as [[pre post] found]. destruct S as (E & P & _).
+  rewrite E at 1. destruct found.
+  - rewrite count_z_app, !count_z_cons, count_z_nil. lia.
+  - rewrite (P eq_refl), app_nil_r, !count_z_nil. lia.
+Qed.
+
+(* await_suspend: the object is emptied, its array freed; every handle of the list, everything that was queued, and
+   the awaiter (once) are either resumed before the awaiter continues or left in the queue behind it *)
+Lemma await_suspend_spec q s : wf_sp s -> sp_count s <> 0 ->
+  let '(s2, q', r, c, pu, po) := await_suspend q s in
+  s2 = mkSp 0 [] (cap s) (typed s) (val s) /\ c = (0, arr s) /\
+  (forall y, (count_z y q + count_z y (hs s) + count_z y (self_push s) = count_z y r + count_z y q')%nat) /\
+  (count_z driver q = 0 -> count_z driver (hs s) <= 1 -> count_z driver r = 1 /\ count_z driver q' = 0)%nat /\
+  (exists t, r = t ++ [driver] /\ count_z driver t = 0%nat).
+Proof.
+  intros W NZ. unfold await_suspend, self_push.
+  destruct (sp_count s =? 0) eqn:Z0; [lia|].
+  pose proof (sp_pop_spec s W) as Q. cbn zeta in Q.
+  destruct (sp_pop s) as [s1 out]. cbn [fst snd] in Q. destruct Q as (W1 & V1 & T1 & C1 & A1 & H1 & _).
+  unfold sp_clear_internal.
+  assert (forall y, count_z y (hs s) = (count_z y (hs s1) + count_z y (olist out))%nat) as HC
+    by (intros y; rewrite H1, count_z_app; reflexivity).
+  destruct (existsb is_drv (olist out)) eqn:DO.
+  - (* the awaiter's own handle was the last one *)
+    cbn [orb app]. rewrite app_nil_r.
+    assert (olist out = [driver]) as OD.
+    { destruct out as [x|]; cbn [olist existsb] in *; [|discriminate]. rewrite orb_false_r in DO.
+      apply is_drv_eq in DO. subst. reflexivity. }
+    refine (conj _ (conj _ (conj _ (conj _ _)))).
+    + rewrite V1, T1, C1. reflexivity.
+    + f_equal. exact A1.
+    + intros y. rewrite HC, OD, count_z_nil, count_z_app. lia.
+    + intros Q0 LE. rewrite HC, OD in LE. rewrite count_z_app. split; [reflexivity|].
+      assert (count_z driver [driver] = 1%nat) as ONE by reflexivity. lia.
+    + exists []. split; reflexivity.
+  - cbn [orb].
+    set (me_in := existsb is_drv (hs s1)).
+    set (q1 := q ++ hs s1 ++ (if me_in then [] else [driver])).
+    pose proof (split_drv_spec q1) as SP. pose proof (split_drv_counts q1) as SC.
+    destruct (split_drv q1) as [[pre post] found]. destruct SP as (E & P & CP & NF).
+    assert (count_z driver (olist out) = 0%nat) as CO by (apply count_drv_existsb; exact DO).
+    assert (found = true) as FT.
+    { destruct found; [reflexivity|]. specialize (NF eq_refl). unfold q1 in NF. rewrite !count_z_app in NF.
+      unfold me_in in NF. destruct (existsb is_drv (hs s1)) eqn:M.
+      - apply existsb_drv_count in M. lia.
+      - assert (count_z driver [driver] = 1%nat) by reflexivity. lia. }
+    subst found. cbv iota in SC |- *.
+    refine (conj _ (conj _ (conj _ (conj _ _)))).
+    + rewrite V1, T1, C1. reflexivity.
+    + f_equal. exact A1.
+    + intros y. specialize (SC y). unfold q1 in SC. rewrite !count_z_app in SC. rewrite !count_z_app, HC.
+      fold me_in. destruct me_in; rewrite ?count_z_nil in *; lia.
+    + intros Q0 LE. rewrite !count_z_app, CO, CP. split; [reflexivity|].
+      specialize (SC driver). unfold q1 in SC. rewrite !count_z_app in SC. rewrite HC, CO in LE. rewrite CP in SC.
+      assert (count_z driver [driver] = 1%nat) as ONE by reflexivity.
+      unfold me_in in SC. destruct (existsb is_drv (hs s1)) eqn:M.
+      * rewrite count_z_nil in SC. lia.
+      * apply count_drv_existsb in M. lia.
+    + exists (olist out ++ pre). split; [rewrite <- app_assoc; reflexivity|]. rewrite count_z_app. lia.
+Qed.
+
 (* ---------- the environment ---------- *)
-Definition hso (o : option sp) : list Z := match o with Some s => hs s | None => [] end.
-Definition held_objs (l : list (option sp)) : list Z := flat_map hso l.
-Definition held (e : env) : list Z := held_objs (objs e) ++ queue e.
 Definition arrs_o (o : option sp) : Z := match o with Some s => arr s | None => 0 end.
 Fixpoint arrs (l : list (option sp)) : Z := match l with [] => 0 | o :: t => arrs_o o + arrs t end.
 Definition wf_objs (l : list (option sp)) : Prop := forall i s, get l i = Some s -> wf_sp s.
@@ -172,212 +288,293 @@ Proof.
   - rewrite get_put_other in G by exact E. eapply W; eassumption.
 Qed.
 
-(* handles handed in by an op (only when the op was accepted) *)
+(* replacing one / two objects: what happens to well-formedness, to the multiset of held handles and to the arrays *)
+Lemma put1_spec l o v : wf_objs l -> wf_o v ->
+  wf_objs (put l o v) /\
+  (forall y, (count_z y (held_objs (put l o v)) + count_z y (hso (get l o)) = count_z y (hso v) + count_z y (held_objs l))%nat) /\
+  arrs (put l o v) + arrs_o (get l o) = arrs_o v + arrs l.
+Proof.
+  intros W V. refine (conj (wf_put _ _ _ W V) (conj (fun y => held_put y l o v) (arrs_put l o v))).
+Qed.
+
+Lemma put2_spec l o1 o2 v1 v2 : o1 <> o2 -> wf_objs l -> wf_o v1 -> wf_o v2 ->
+  wf_objs (put (put l o1 v1) o2 v2) /\
+  (forall y, (count_z y (held_objs (put (put l o1 v1) o2 v2)) + count_z y (hso (get l o1)) + count_z y (hso (get l o2))
+              = count_z y (hso v1) + count_z y (hso v2) + count_z y (held_objs l))%nat) /\
+  arrs (put (put l o1 v1) o2 v2) + arrs_o (get l o1) + arrs_o (get l o2) = arrs_o v1 + arrs_o v2 + arrs l.
+Proof.
+  intros E W V1 V2. refine (conj (wf_put _ _ _ (wf_put _ _ _ W V1) V2) (conj _ _)).
+  - intros y. pose proof (held_put y (put l o1 v1) o2 v2) as P2. rewrite get_put_other in P2 by exact E.
+    pose proof (held_put y l o1 v1) as P1. lia.
+  - pose proof (arrs_put (put l o1 v1) o2 v2) as P2. rewrite get_put_other in P2 by exact E.
+    pose proof (arrs_put l o1 v1) as P1. lia.
+Qed.
+
+Lemma count_z_rev y l : count_z y (rev l) = count_z y l.
+Proof. apply counts_of_perm. apply Permutation_sym, Permutation_rev. Qed.
+
+(* ready coroutines handed in by an op (only when the op was accepted); `o << co_await self()` hands in the awaiter *)
 Definition handed_op (x : op) (ob : obs) : list Z :=
-  if o_st ob =? 0 then match x with ONewH _ h _ => [h] | OAdd _ h => [h] | _ => [] end else [].
+  if o_st ob =? 0 then
+    match x with
+    | ONewH _ h _ | OAdd _ h | ONewVoidH _ h => [h]
+    | OCreate _ _ _ l => l
+    | OAddSelf _ => [driver]
+    | _ => []
+    end
+  else [].
+
+(* the awaiter's own handle as handed in by the await itself (pause always; await_suspend unless it is in the list;
+   a co_await that does not suspend simply continues: counted the same way) *)
+Definition spush (coro : bool) (e : env) (x : op) : list Z :=
+  if coro then
+    match x with
+    | OAwait o | OAwaitL o => match get (objs e) o with Some s => self_push s | None => [] end
+    | OFlush => [driver]
+    | _ => []
+    end
+  else [].
 
 Definition wf_env (e : env) : Prop := wf_objs (objs e).
 
-Ltac cnt_norm :=
-  unfold held in *;
-  cbn [objs queue o_res o_st o_cost fst snd hso arrs_o hs] in *;
-  change (0 =? 0)%Z with true in *; change (1 =? 0)%Z with false in *;
-  repeat rewrite count_z_app in *; cbn [count_z] in *.
-
-Lemma step_spec coro e x :
-  wf_env e ->
-  let r := step coro e x in
+Definition step_ok (coro : bool) (e : env) (x : op) (r : env * obs) : Prop :=
   wf_env (fst r) /\
-  (forall y, (count_z y (handed_op x (snd r)) + count_z y (held e) =
+  (forall y, (count_z y (handed_op x (snd r)) + count_z y (held e) + count_z y (spush coro e x) =
               count_z y (o_res (snd r)) + count_z y (held (fst r)))%nat) /\
   arrs (objs (fst r)) - arrs (objs e) = fst (o_cost (snd r)) - snd (o_cost (snd r)).
+
+Lemma step_ok_rej coro e x : wf_env e -> spush coro e x = [] -> step_ok coro e x (e, rejected).
 Proof.
-  intros W. unfold wf_env in *.
-  assert (forall y, (count_z y (handed_op x rejected) + count_z y (held e) =
-                     count_z y (o_res rejected) + count_z y (held e))%nat) as REJ.
-  { intros y. unfold handed_op, rejected. cbn. lia. }
-  assert (let r := (e, rejected) in
-          wf_objs (objs (fst r)) /\
-          (forall y, (count_z y (handed_op x (snd r)) + count_z y (held e) =
-              count_z y (o_res (snd r)) + count_z y (held (fst r)))%nat) /\
-          arrs (objs (fst r)) - arrs (objs e) = fst (o_cost (snd r)) - snd (o_cost (snd r))) as REJ3.
-  { cbn [fst snd]. refine (conj W (conj REJ _)). cbn. lia. }
-  destruct x as [o v|o h v|o h|o1 o2|o1 o2|o1 o2 v|o|o|o|o| |o1 o2| ]; cbn [step].
+  intros W S. unfold step_ok. cbn [fst snd]. refine (conj W (conj _ _)).
+  - intros y. rewrite S. unfold handed_op, rejected. cbn [o_st o_res]. change (1 =? 0) with false. rewrite !count_z_nil. lia.
+  - unfold rejected. cbn [o_cost fst snd]. lia.
+Qed.
+
+Ltac rej W := apply step_ok_rej; [exact W | unfold spush; try reflexivity; match goal with |- (if ?c then _ else _) = _ => destruct c; reflexivity end].
+
+Ltac norm_goal :=
+  unfold handed_op, ok_obs, held, upd; cbn [objs queue o_res o_st o_cost fst snd hso arrs_o];
+  change (0 =? 0) with true; cbv iota; rewrite ?count_z_app, ?count_z_nil.
+
+Lemma step_spec coro e x : wf_env e -> step_ok coro e x (step coro e x).
+Proof.
+  intros W. unfold wf_env in W.
+  destruct x as [o v|o h v|o h|o1 o2|o1 o2|o1 o2 v|o|o|o|o| |o1 o2|o t v l|o|o h|o k|o|o|o1 o2| ]; cbn [step].
   - (* NewV *)
-    destruct (get (objs e) o) eqn:G; [exact REJ3|]. cbn [fst snd objs].
-    refine (conj _ (conj _ _)).
-    + apply wf_put; [exact W|apply wf_empty].
-    + intros y. pose proof (held_put y (objs e) o (Some (mkSp 0 [] 0 v))) as P. rewrite G in P.
-      unfold handed_op, ok_obs. cnt_norm. lia.
-    + pose proof (arrs_put (objs e) o (Some (mkSp 0 [] 0 v))) as P. rewrite G in P.
-      unfold ok_obs. cbn [o_cost arrs_o fst snd] in *. rewrite arr_empty in P. lia.
+    destruct (get (objs e) o) eqn:G; [rej W|].
+    pose proof (put1_spec (objs e) o (Some (mkSp 0 [] 0 true v)) W (wf_empty _ _ _)) as (PW & PC & PA).
+    rewrite G in PC, PA. unfold step_ok, spush. cbn [fst snd]. refine (conj PW (conj _ _)).
+    + intros y. specialize (PC y). norm_goal. cbn [hso hs] in PC. rewrite ?count_z_nil in *. destruct coro; rewrite ?count_z_nil; lia.
+    + norm_goal. cbn [arrs_o] in PA. rewrite arr_empty in PA. lia.
   - (* NewH *)
-    destruct (get (objs e) o) eqn:G; [exact REJ3|]. cbn [fst snd objs].
-    refine (conj _ (conj _ _)).
-    + apply wf_put; [exact W|]. unfold wf_o, wf_sp. cbn. unfold zlen. cbn. lia.
-    + intros y. pose proof (held_put y (objs e) o (Some (mkSp 2 [h] 0 v))) as P. rewrite G in P.
-      unfold handed_op, ok_obs. cnt_norm. lia.
-    + pose proof (arrs_put (objs e) o (Some (mkSp 2 [h] 0 v))) as P. rewrite G in P.
-      unfold ok_obs. cbn [o_cost arrs_o fst snd] in *. change (arr (mkSp 2 [h] 0 v)) with 0 in P. lia.
+    destruct (h <=? 0) eqn:HP; [rej W|].
+    destruct (get (objs e) o) eqn:G; [rej W|].
+    pose proof (put1_spec (objs e) o (Some (mkSp 2 [h] 0 true v)) W (wf_single _ _ _ _)) as (PW & PC & PA).
+    rewrite G in PC, PA. unfold step_ok, spush. cbn [fst snd]. refine (conj PW (conj _ _)).
+    + intros y. specialize (PC y). norm_goal. cbn [hso hs] in PC. rewrite ?count_z_nil in *. destruct coro; rewrite ?count_z_nil; lia.
+    + norm_goal. cbn [arrs_o] in PA. change (arr (mkSp 2 [h] 0 true v)) with 0 in PA. lia.
   - (* Add *)
-    destruct (get (objs e) o) as [s|] eqn:G; [|exact REJ3].
-    pose proof (W _ _ G) as Ws.
-    pose proof (sp_add_wf s h Ws) as W1. pose proof (sp_add_hs s h) as H1. pose proof (sp_add_arr s h Ws) as A1.
-    destruct (sp_add s h) as [s1 c]. cbn [fst snd objs] in *.
-    refine (conj _ (conj _ _)).
-    + apply wf_put; [exact W|exact W1].
-    + intros y. pose proof (held_put y (objs e) o (Some s1)) as P. rewrite G in P.
-      unfold handed_op, ok_obs. cnt_norm. rewrite H1 in P. cnt_norm. lia.
-    + pose proof (arrs_put (objs e) o (Some s1)) as P. rewrite G in P. unfold ok_obs. cbn [o_cost arrs_o] in *. lia.
+    destruct (h <=? 0) eqn:HP; [rej W|].
+    destruct (get (objs e) o) as [s|] eqn:G; [|rej W].
+    pose proof (sp_add_spec s h (W _ _ G)) as Q. cbn zeta in Q.
+    destruct (sp_add s h) as [s1 c]. cbn [fst snd] in Q. destruct Q as (W1 & H1 & V1 & T1 & A1).
+    pose proof (put1_spec (objs e) o (Some s1) W W1) as (PW & PC & PA).
+    rewrite G in PC, PA. unfold step_ok, spush. cbn [fst snd]. refine (conj PW (conj _ _)).
+    + intros y. specialize (PC y). norm_goal. cbn [hso] in PC. rewrite H1, count_z_app in PC. destruct coro; rewrite ?count_z_nil; lia.
+    + norm_goal. cbn [arrs_o] in PA. lia.
   - (* Merge *)
-    destruct (Nat.eqb_spec o1 o2) as [E|E]; [exact REJ3|].
-    destruct (get (objs e) o1) as [d|] eqn:G1; [|exact REJ3].
-    destruct (get (objs e) o2) as [s|] eqn:G2; [|exact REJ3].
-    pose proof (W _ _ G1) as Wd. pose proof (W _ _ G2) as Ws.
-    unfold sp_merge. pose proof (sp_add_all_spec d (hs s) Wd) as Q. cbn zeta in Q.
-    destruct (sp_add_all d (hs s)) as [d1 c1]. cbn [fst snd] in Q. destruct Q as (W1 & H1 & V1 & A1).
-    unfold sp_clear_internal. cbn [fst snd objs].
-    refine (conj _ (conj _ _)).
-    + apply wf_put; [apply wf_put; [exact W|exact W1]|apply wf_empty].
-    + intros y.
-      pose proof (held_put y (put (objs e) o1 (Some d1)) o2 (Some (mkSp 0 [] (cap s) (val s)))) as P2.
-      rewrite get_put_other in P2 by exact E. rewrite G2 in P2.
-      pose proof (held_put y (objs e) o1 (Some d1)) as P1. rewrite G1 in P1.
-      unfold handed_op, ok_obs. cnt_norm. rewrite H1 in P1. cnt_norm. lia.
-    + pose proof (arrs_put (put (objs e) o1 (Some d1)) o2 (Some (mkSp 0 [] (cap s) (val s)))) as P2.
-      rewrite get_put_other in P2 by exact E. rewrite G2 in P2.
-      pose proof (arrs_put (objs e) o1 (Some d1)) as P1. rewrite G1 in P1.
-      unfold ok_obs, cadd. cbn [o_cost arrs_o fst snd] in *. rewrite arr_empty in P2.
-      unfold arr in P2 at 1. destruct (sp_flag s); lia.
+    destruct (Nat.eqb_spec o1 o2) as [E|E]; [rej W|].
+    destruct (get (objs e) o1) as [d|] eqn:G1; [|rej W].
+    destruct (get (objs e) o2) as [s|] eqn:G2; [|rej W].
+    pose proof (sp_merge_spec d s (W _ _ G1)) as Q. cbn zeta in Q.
+    destruct (sp_merge d s) as [[d1 s1] c]. cbn [fst snd] in Q. destruct Q as (W1 & H1 & V1 & T1 & S1 & A1). subst s1.
+    pose proof (put2_spec (objs e) o1 o2 (Some d1) (Some (mkSp 0 [] (cap s) (typed s) (val s))) E W W1 (wf_empty _ _ _)) as (PW & PC & PA).
+    rewrite G1, G2 in PC, PA. unfold step_ok, spush. cbn [fst snd]. refine (conj PW (conj _ _)).
+    + intros y. specialize (PC y). norm_goal. cbn [hso hs] in PC. rewrite H1, count_z_app in PC. rewrite ?count_z_nil in *. destruct coro; rewrite ?count_z_nil; lia.
+    + norm_goal. cbn [arrs_o] in PA. rewrite arr_empty in PA. lia.
   - (* MoveCtor *)
-    destruct (Nat.eqb_spec o1 o2) as [E|E]; [exact REJ3|].
-    destruct (get (objs e) o1) as [d|] eqn:G1; [exact REJ3|].
-    destruct (get (objs e) o2) as [s|] eqn:G2; [|exact REJ3].
-    pose proof (W _ _ G2) as Ws. cbn [fst snd objs].
-    refine (conj _ (conj _ _)).
-    + apply wf_put; [apply wf_put; [exact W|exact Ws]|apply wf_empty].
-    + intros y.
-      pose proof (held_put y (put (objs e) o1 (Some s)) o2 (Some (mkSp 0 [] (cap s) (val s)))) as P2.
-      rewrite get_put_other in P2 by exact E. rewrite G2 in P2.
-      pose proof (held_put y (objs e) o1 (Some s)) as P1. rewrite G1 in P1.
-      unfold handed_op, ok_obs. cnt_norm. lia.
-    + pose proof (arrs_put (put (objs e) o1 (Some s)) o2 (Some (mkSp 0 [] (cap s) (val s)))) as P2.
-      rewrite get_put_other in P2 by exact E. rewrite G2 in P2.
-      pose proof (arrs_put (objs e) o1 (Some s)) as P1. rewrite G1 in P1.
-      unfold ok_obs. cbn [o_cost arrs_o fst snd] in *. rewrite arr_empty in P2. lia.
+    destruct (Nat.eqb_spec o1 o2) as [E|E]; [rej W|].
+    destruct (get (objs e) o1) as [d|] eqn:G1; [rej W|].
+    destruct (get (objs e) o2) as [s|] eqn:G2; [|rej W].
+    pose proof (put2_spec (objs e) o1 o2 (Some s) (Some (moved_val (reset_src s))) E W (W _ _ G2) (wf_empty _ _ _)) as (PW & PC & PA).
+    rewrite G1, G2 in PC, PA. unfold step_ok, spush. cbn [fst snd]. refine (conj PW (conj _ _)).
+    + intros y. specialize (PC y). norm_goal. cbn [hso hs moved_val reset_src] in PC. rewrite ?count_z_nil in *. destruct coro; rewrite ?count_z_nil; lia.
+    + norm_goal. cbn [arrs_o] in PA. change (arr (moved_val (reset_src s))) with 0 in PA. lia.
   - (* MoveBase *)
-    destruct (Nat.eqb_spec o1 o2) as [E|E]; [exact REJ3|].
-    destruct (get (objs e) o1) as [d|] eqn:G1; [exact REJ3|].
-    destruct (get (objs e) o2) as [s|] eqn:G2; [|exact REJ3].
-    pose proof (W _ _ G2) as Ws. cbn [fst snd objs].
-    refine (conj _ (conj _ _)).
-    + apply wf_put; [apply wf_put; [exact W|exact Ws]|apply wf_empty].
-    + intros y.
-      pose proof (held_put y (put (objs e) o1 (Some (mkSp (cf s) (hs s) (cap s) v))) o2 (Some (mkSp 0 [] (cap s) (val s)))) as P2.
-      rewrite get_put_other in P2 by exact E. rewrite G2 in P2.
-      pose proof (held_put y (objs e) o1 (Some (mkSp (cf s) (hs s) (cap s) v))) as P1. rewrite G1 in P1.
-      unfold handed_op, ok_obs. cnt_norm. lia.
-    + pose proof (arrs_put (put (objs e) o1 (Some (mkSp (cf s) (hs s) (cap s) v))) o2 (Some (mkSp 0 [] (cap s) (val s)))) as P2.
-      rewrite get_put_other in P2 by exact E. rewrite G2 in P2.
-      pose proof (arrs_put (objs e) o1 (Some (mkSp (cf s) (hs s) (cap s) v))) as P1. rewrite G1 in P1.
-      unfold ok_obs. cbn [o_cost arrs_o fst snd] in *. rewrite arr_empty in P2.
-      change (arr (mkSp (cf s) (hs s) (cap s) v)) with (arr s) in P1. lia.
+    destruct (Nat.eqb_spec o1 o2) as [E|E]; [rej W|].
+    destruct (get (objs e) o1) as [d|] eqn:G1; [rej W|].
+    destruct (get (objs e) o2) as [s|] eqn:G2; [|rej W].
+    assert (wf_sp (mkSp (cf s) (hs s) (cap s) true v)) as WN by (apply (wf_same s); auto; exact (W _ _ G2)).
+    pose proof (put2_spec (objs e) o1 o2 (Some (mkSp (cf s) (hs s) (cap s) true v)) (Some (reset_src s)) E W WN (wf_empty _ _ _)) as (PW & PC & PA).
+    rewrite G1, G2 in PC, PA. unfold step_ok, spush. cbn [fst snd]. refine (conj PW (conj _ _)).
+    + intros y. specialize (PC y). norm_goal. cbn [hso hs reset_src] in PC. rewrite ?count_z_nil in *. destruct coro; rewrite ?count_z_nil; lia.
+    + norm_goal. cbn [arrs_o] in PA. change (arr (reset_src s)) with 0 in PA.
+      change (arr (mkSp (cf s) (hs s) (cap s) true v)) with (arr s) in PA. lia.
   - (* Pop *)
-    destruct (get (objs e) o) as [s|] eqn:G; [|exact REJ3].
-    pose proof (W _ _ G) as Ws. pose proof (sp_pop_spec s Ws) as Q. cbn zeta in Q.
-    destruct (sp_pop s) as [s1 h]. cbn [fst snd objs] in *. destruct Q as (W1 & V1 & A1 & H1 & _).
-    refine (conj _ (conj _ _)).
-    + apply wf_put; [exact W|exact W1].
-    + intros y. pose proof (held_put y (objs e) o (Some s1)) as P. rewrite G in P.
-      unfold handed_op, ok_obs. cnt_norm. rewrite H1 in P. cnt_norm. lia.
-    + pose proof (arrs_put (objs e) o (Some s1)) as P. rewrite G in P. unfold ok_obs. cbn [o_cost arrs_o fst snd] in *. lia.
+    destruct (get (objs e) o) as [s|] eqn:G; [|rej W].
+    destruct (has_drv s) eqn:HD; [rej W|].
+    pose proof (sp_pop_spec s (W _ _ G)) as Q. cbn zeta in Q.
+    destruct (sp_pop s) as [s1 h]. cbn [fst snd] in Q. destruct Q as (W1 & V1 & T1 & C1 & A1 & H1 & _).
+    pose proof (put1_spec (objs e) o (Some s1) W W1) as (PW & PC & PA).
+    rewrite G in PC, PA. unfold step_ok, spush. cbn [fst snd]. refine (conj PW (conj _ _)).
+    + intros y. specialize (PC y). norm_goal. cbn [hso] in PC. rewrite H1, count_z_app in PC. destruct coro; rewrite ?count_z_nil; lia.
+    + norm_goal. cbn [arrs_o] in PA. lia.
   - (* Clear *)
-    destruct (get (objs e) o) as [s|] eqn:G; [|exact REJ3].
-    pose proof (W _ _ G) as Ws. unfold suspend_now, sp_clear_internal.
-    destruct coro; cbn [fst snd objs].
-    + refine (conj _ (conj _ _)).
-      * apply wf_put; [exact W|apply wf_empty].
-      * intros y. pose proof (held_put y (objs e) o (Some (mkSp 0 [] (cap s) (val s)))) as P. rewrite G in P.
-        unfold handed_op. cnt_norm. lia.
-      * pose proof (arrs_put (objs e) o (Some (mkSp 0 [] (cap s) (val s)))) as P. rewrite G in P.
-        cbn [o_cost arrs_o fst snd] in *. rewrite arr_empty in P. unfold arr in P. destruct (sp_flag s); lia.
-    + refine (conj _ (conj _ _)).
-      * apply wf_put; [exact W|apply wf_empty].
-      * intros y. pose proof (held_put y (objs e) o (Some (mkSp 0 [] (cap s) (val s)))) as P. rewrite G in P.
-        unfold handed_op. cnt_norm. lia.
-      * pose proof (arrs_put (objs e) o (Some (mkSp 0 [] (cap s) (val s)))) as P. rewrite G in P.
-        cbn [o_cost arrs_o fst snd] in *. rewrite arr_empty in P. unfold arr in P. destruct (sp_flag s); lia.
+    destruct (get (objs e) o) as [s|] eqn:G; [|rej W].
+    destruct (has_drv s) eqn:HD; [rej W|].
+    unfold suspend_now, sp_clear_internal.
+    pose proof (put1_spec (objs e) o (Some (mkSp 0 [] (cap s) (typed s) (val s))) W (wf_empty _ _ _)) as (PW & PC & PA).
+    rewrite G in PC, PA. cbn [hso hs arrs_o] in PC, PA. rewrite arr_empty in PA.
+    destruct coro; unfold step_ok, spush; cbn [fst snd]; (refine (conj PW (conj _ _));
+      [intros y; specialize (PC y); unfold handed_op, held; cbn [objs queue o_res o_st o_cost fst snd]; change (0 =? 0) with true; cbv iota;
+       rewrite ?count_z_app, ?count_z_nil in *; lia
+      |cbn [objs o_cost fst snd]; unfold arr in PA; destruct (sp_flag s); lia]).
   - (* Destroy *)
-    destruct (get (objs e) o) as [s|] eqn:G; [|exact REJ3].
-    pose proof (W _ _ G) as Ws. unfold suspend_now, sp_clear_internal.
-    destruct coro; cbn [fst snd objs].
-    + refine (conj _ (conj _ _)).
-      * apply wf_put; [exact W|exact I].
-      * intros y. pose proof (held_put y (objs e) o None) as P. rewrite G in P.
-        unfold handed_op. cnt_norm. lia.
-      * pose proof (arrs_put (objs e) o None) as P. rewrite G in P.
-        cbn [o_cost arrs_o fst snd] in *. unfold arr in P. destruct (sp_flag s); lia.
-    + refine (conj _ (conj _ _)).
-      * apply wf_put; [exact W|exact I].
-      * intros y. pose proof (held_put y (objs e) o None) as P. rewrite G in P.
-        unfold handed_op. cnt_norm. lia.
-      * pose proof (arrs_put (objs e) o None) as P. rewrite G in P.
-        cbn [o_cost arrs_o fst snd] in *. unfold arr in P. destruct (sp_flag s); lia.
+    destruct (get (objs e) o) as [s|] eqn:G; [|rej W].
+    destruct (has_drv s) eqn:HD; [rej W|].
+    unfold suspend_now, sp_clear_internal.
+    pose proof (put1_spec (objs e) o None W I) as (PW & PC & PA).
+    rewrite G in PC, PA. cbn [hso hs arrs_o] in PC, PA.
+    destruct coro; unfold step_ok, spush; cbn [fst snd]; (refine (conj PW (conj _ _));
+      [intros y; specialize (PC y); unfold handed_op, held; cbn [objs queue o_res o_st o_cost fst snd]; change (0 =? 0) with true; cbv iota;
+       rewrite ?count_z_app, ?count_z_nil in *; lia
+      |cbn [objs o_cost fst snd]; unfold arr in PA; destruct (sp_flag s); lia]).
   - (* Await *)
-    destruct coro; cbn [negb]; [|exact REJ3].
-    destruct (get (objs e) o) as [s|] eqn:G; [|exact REJ3].
+    destruct coro; cbn [negb]; [|rej W].
+    destruct (get (objs e) o) as [s|] eqn:G; [|apply step_ok_rej; [exact W|unfold spush; rewrite G; reflexivity]].
     pose proof (W _ _ G) as Ws.
+    pose proof (put1_spec (objs e) o (Some (moved_val (reset_src s))) W (wf_empty _ _ _)) as (PW & PC & PA).
+    rewrite G in PC, PA. cbn [hso arrs_o] in PC, PA. change (arr (moved_val (reset_src s))) with 0 in PA.
+    change (hs (moved_val (reset_src s))) with (@nil Z) in PC.
+    unfold step_ok, spush. rewrite G.
     destruct (sp_count s =? 0) eqn:C.
-    + unfold sp_clear_internal. cbn [fst snd objs].
-      assert (hs s = []) as HE.
-      { destruct Ws as (_ & HL & _). unfold sp_count in C. destruct (hs s); [reflexivity|]. unfold zlen in HL. cbn [length] in HL. lia. }
-      refine (conj _ (conj _ _)).
-      * apply wf_put; [exact W|apply wf_empty].
-      * intros y. pose proof (held_put y (objs e) o (Some (mkSp 0 [] (cap s) (val s)))) as P. rewrite G in P.
-        unfold handed_op, ok_obs. cnt_norm. rewrite HE in P. cnt_norm. lia.
-      * pose proof (arrs_put (objs e) o (Some (mkSp 0 [] (cap s) (val s)))) as P. rewrite G in P.
-        unfold ok_obs. cbn [o_cost arrs_o fst snd] in *. rewrite arr_empty in P. unfold arr in P. destruct (sp_flag s); lia.
-    + pose proof (sp_pop_spec s Ws) as Q. cbn zeta in Q.
-      destruct (sp_pop s) as [s1 h]. cbn [fst snd] in Q. destruct Q as (W1 & V1 & A1 & H1 & _).
-      unfold sp_clear_internal. cbn [fst snd objs].
-      refine (conj _ (conj _ _)).
-      * apply wf_put; [exact W|apply wf_empty].
-      * intros y. pose proof (held_put y (objs e) o (Some (mkSp 0 [] (cap s1) (val s1)))) as P. rewrite G in P.
-        unfold handed_op. cnt_norm. rewrite H1 in P. cnt_norm. lia.
-      * pose proof (arrs_put (objs e) o (Some (mkSp 0 [] (cap s1) (val s1)))) as P. rewrite G in P.
-        cbn [o_cost arrs_o fst snd] in *. rewrite arr_empty in P. rewrite <- A1 in P. unfold arr in P. destruct (sp_flag s1); lia.
+    + unfold sp_clear_internal. cbn [fst snd].
+      assert (hs s = []) as HE by (apply zlen_nil_inv; destruct Ws as (_ & HL & _); unfold sp_count in C; lia).
+      unfold self_push. rewrite C. refine (conj PW (conj _ _)).
+      * intros y. specialize (PC y). norm_goal. rewrite HE in PC. rewrite ?count_z_nil in *. lia.
+      * norm_goal. unfold arr in PA. destruct (sp_flag s); lia.
+    + assert (sp_count s <> 0) as NZ by lia.
+      pose proof (await_suspend_spec (queue e) s Ws NZ) as Q.
+      destruct (await_suspend (queue e) s) as [[[[[s2 q'] r] c] pu] po]. destruct Q as (_ & CE & QC & _). subst c.
+      cbn [fst snd]. refine (conj PW (conj _ _)).
+      * intros y. specialize (PC y). specialize (QC y). unfold handed_op, held. cbn [objs queue o_res o_st].
+        change (0 =? 0) with true. cbv iota. rewrite ?count_z_app, ?count_z_nil in *. lia.
+      * cbn [objs o_cost fst snd]. lia.
   - (* Flush *)
-    destruct coro; cbn [negb]; [|exact REJ3]. cbn [fst snd objs].
-    refine (conj W (conj _ _)).
-    + intros y. unfold handed_op. cnt_norm. lia.
-    + cbn. lia.
+    destruct coro; cbn [negb]; [|rej W].
+    pose proof (split_drv_counts (queue e ++ [driver])) as SC.
+    destruct (split_drv (queue e ++ [driver])) as [[pre post] found].
+    unfold step_ok, spush. cbn [fst snd]. refine (conj W (conj _ _)).
+    + intros y. specialize (SC y). unfold handed_op, held. cbn [objs queue o_res o_st]. change (0 =? 0) with true. cbv iota.
+      rewrite ?count_z_app, ?count_z_nil in *. lia.
+    + cbn [objs o_cost fst snd]. lia.
   - (* MoveAssign *)
-    destruct (Nat.eqb_spec o1 o2) as [E|E]; [exact REJ3|].
-    destruct (get (objs e) o1) as [d|] eqn:G1; [|exact REJ3].
-    destruct (get (objs e) o2) as [s|] eqn:G2; [|exact REJ3].
-    pose proof (W _ _ G1) as Wd. pose proof (W _ _ G2) as Ws.
-    unfold sp_merge. pose proof (sp_add_all_spec d (hs s) Wd) as Q. cbn zeta in Q.
-    destruct (sp_add_all d (hs s)) as [d1 c1]. cbn [fst snd] in Q. destruct Q as (W1 & H1 & V1 & A1).
-    unfold sp_clear_internal. cbn [fst snd objs].
-    set (d2 := mkSp (cf d1) (hs d1) (cap d1) (val s)).
-    assert (wf_sp d2) as W2 by exact W1.
-    assert (hs d2 = hs d ++ hs s) as H2 by exact H1.
-    assert (arr d2 = arr d1) as A2 by reflexivity.
-    clearbody d2.
-    refine (conj _ (conj _ _)).
-    + apply wf_put; [apply wf_put; [exact W|exact W2]|apply wf_empty].
-    + intros y.
-      pose proof (held_put y (put (objs e) o1 (Some d2)) o2 (Some (mkSp 0 [] (cap s) (val s)))) as P2.
-      rewrite get_put_other in P2 by exact E. rewrite G2 in P2.
-      pose proof (held_put y (objs e) o1 (Some d2)) as P1. rewrite G1 in P1.
-      unfold handed_op, ok_obs. cnt_norm. rewrite H2 in P1. cnt_norm. lia.
-    + pose proof (arrs_put (put (objs e) o1 (Some d2)) o2 (Some (mkSp 0 [] (cap s) (val s)))) as P2.
-      rewrite get_put_other in P2 by exact E. rewrite G2 in P2.
-      pose proof (arrs_put (objs e) o1 (Some d2)) as P1. rewrite G1 in P1.
-      unfold ok_obs, cadd. cbn [o_cost arrs_o fst snd] in *. rewrite arr_empty in P2.
-      rewrite A2 in P1.
-      unfold arr in P2 at 1. destruct (sp_flag s); lia.
-  - exact REJ3.
+    destruct (Nat.eqb_spec o1 o2) as [E|E]; [rej W|].
+    destruct (get (objs e) o1) as [d|] eqn:G1; [|rej W].
+    destruct (get (objs e) o2) as [s|] eqn:G2; [|rej W].
+    destruct (typed d && negb (typed s)) eqn:TT; [rej W|].
+    pose proof (sp_merge_spec d s (W _ _ G1)) as Q. cbn zeta in Q.
+    destruct (sp_merge d s) as [[d1 s1] c]. cbn [fst snd] in Q. destruct Q as (W1 & H1 & V1 & T1 & S1 & A1). subst s1.
+    set (d2 := if typed d then set_val d1 (val s) else d1).
+    set (s2 := if typed d then moved_val (mkSp 0 [] (cap s) (typed s) (val s)) else mkSp 0 [] (cap s) (typed s) (val s)).
+    assert (wf_sp d2 /\ hs d2 = hs d ++ hs s /\ arr d2 = arr d1) as (W2 & H2 & A2)
+      by (unfold d2; destruct (typed d); [refine (conj (wf_same d1 _ eq_refl eq_refl eq_refl W1) (conj H1 eq_refl))|auto]).
+    assert (wf_sp s2 /\ hs s2 = [] /\ arr s2 = 0) as (W3 & H3 & A3)
+      by (unfold s2; destruct (typed d); (split; [exact (wf_empty _ _ _)|split; reflexivity])).
+    clearbody d2 s2.
+    pose proof (put2_spec (objs e) o1 o2 (Some d2) (Some s2) E W W2 W3) as (PW & PC & PA).
+    rewrite G1, G2 in PC, PA. unfold step_ok, spush. cbn [fst snd]. refine (conj PW (conj _ _)).
+    + intros y. specialize (PC y). norm_goal. cbn [hso] in PC. rewrite H2, H3, count_z_app in PC. rewrite ?count_z_nil in *. destruct coro; rewrite ?count_z_nil; lia.
+    + norm_goal. cbn [arrs_o] in PA. lia.
+  - (* Create *)
+    destruct (negb (forallb (fun h => 0 <? h) l)) eqn:FP; [rej W|].
+    destruct (get (objs e) o) eqn:G; [rej W|].
+    pose proof (sp_add_all_spec (mkSp 0 [] 0 false 0) (rev l) (wf_empty _ _ _)) as Q. cbn zeta in Q.
+    destruct (sp_add_all (mkSp 0 [] 0 false 0) (rev l)) as [s1 c]. cbn [fst snd] in Q. destruct Q as (W1 & H1 & V1 & T1 & A1).
+    cbn [hs app] in H1. rewrite arr_empty in A1.
+    set (s2 := mkSp (cf s1) (hs s1) (cap s1) t (if t then v else 0)).
+    assert (wf_sp s2) as W2 by (apply (wf_same s1); auto).
+    pose proof (put1_spec (objs e) o (Some s2) W W2) as (PW & PC & PA).
+    rewrite G in PC, PA. unfold step_ok, spush. cbn [fst snd]. refine (conj PW (conj _ _)).
+    + intros y. specialize (PC y). norm_goal. cbn [hso s2 hs] in PC. rewrite H1, count_z_rev in PC. rewrite ?count_z_nil in *.
+      destruct coro; rewrite ?count_z_nil; lia.
+    + norm_goal. cbn [arrs_o] in PA. change (arr s2) with (arr s1) in PA. lia.
+  - (* NewVoid *)
+    destruct (get (objs e) o) eqn:G; [rej W|].
+    pose proof (put1_spec (objs e) o (Some (mkSp 0 [] 0 false 0)) W (wf_empty _ _ _)) as (PW & PC & PA).
+    rewrite G in PC, PA. unfold step_ok, spush. cbn [fst snd]. refine (conj PW (conj _ _)).
+    + intros y. specialize (PC y). norm_goal. cbn [hso hs] in PC. rewrite ?count_z_nil in *. destruct coro; rewrite ?count_z_nil; lia.
+    + norm_goal. cbn [arrs_o] in PA. rewrite arr_empty in PA. lia.
+  - (* NewVoidH *)
+    destruct (h <=? 0) eqn:HP; [rej W|].
+    destruct (get (objs e) o) eqn:G; [rej W|].
+    pose proof (put1_spec (objs e) o (Some (mkSp 2 [h] 0 false 0)) W (wf_single _ _ _ _)) as (PW & PC & PA).
+    rewrite G in PC, PA. unfold step_ok, spush. cbn [fst snd]. refine (conj PW (conj _ _)).
+    + intros y. specialize (PC y). norm_goal. cbn [hso hs] in PC. rewrite ?count_z_nil in *. destruct coro; rewrite ?count_z_nil; lia.
+    + norm_goal. cbn [arrs_o] in PA. change (arr (mkSp 2 [h] 0 false 0)) with 0 in PA. lia.
+  - (* Read *)
+    destruct (negb ((k =? 0) || (k =? 1))); [rej W|].
+    destruct (get (objs e) o) as [s|] eqn:G; [|rej W].
+    destruct (typed s); [|rej W].
+    unfold step_ok, spush. cbn [fst snd]. refine (conj W (conj _ _)).
+    + intros y. norm_goal. destruct coro; rewrite ?count_z_nil; lia.
+    + norm_goal. lia.
+  - (* AwaitL *)
+    destruct coro; cbn [negb]; [|rej W].
+    destruct (get (objs e) o) as [s|] eqn:G; [|apply step_ok_rej; [exact W|unfold spush; rewrite G; reflexivity]].
+    pose proof (W _ _ G) as Ws.
+    unfold step_ok, spush. rewrite G.
+    destruct (sp_count s =? 0) eqn:C.
+    + cbn [fst snd]. unfold self_push. rewrite C. refine (conj W (conj _ _)).
+      * intros y. norm_goal. lia.
+      * norm_goal. lia.
+    + assert (sp_count s <> 0) as NZ by lia.
+      pose proof (await_suspend_spec (queue e) s Ws NZ) as Q.
+      destruct (await_suspend (queue e) s) as [[[[[s2 q'] r] c] pu] po]. destruct Q as (S2 & CE & QC & _). subst c s2.
+      pose proof (put1_spec (objs e) o (Some (mkSp 0 [] (cap s) (typed s) (val s))) W (wf_empty _ _ _)) as (PW & PC & PA).
+      rewrite G in PC, PA. cbn [hso hs arrs_o] in PC, PA. rewrite arr_empty in PA.
+      cbn [fst snd]. refine (conj PW (conj _ _)).
+      * intros y. specialize (PC y). specialize (QC y). unfold handed_op, held. cbn [objs queue o_res o_st].
+        change (0 =? 0) with true. cbv iota. rewrite ?count_z_app, ?count_z_nil in *. lia.
+      * cbn [objs o_cost fst snd]. lia.
+  - (* AddSelf *)
+    destruct coro; cbn [negb]; [|rej W].
+    destruct (existsb is_drv (held e)) eqn:HD; [rej W|].
+    destruct (get (objs e) o) as [s|] eqn:G; [|rej W].
+    pose proof (sp_add_spec s driver (W _ _ G)) as Q. cbn zeta in Q.
+    destruct (sp_add s driver) as [s1 c]. cbn [fst snd] in Q. destruct Q as (W1 & H1 & V1 & T1 & A1).
+    pose proof (put1_spec (objs e) o (Some s1) W W1) as (PW & PC & PA).
+    rewrite G in PC, PA. unfold step_ok, spush. cbn [fst snd]. refine (conj PW (conj _ _)).
+    + intros y. specialize (PC y). norm_goal. cbn [hso] in PC. rewrite H1, count_z_app in PC. lia.
+    + norm_goal. cbn [arrs_o] in PA. lia.
+  - (* Swap *)
+    destruct (Nat.eqb_spec o1 o2) as [E|E]; [rej W|].
+    destruct (get (objs e) o1) as [a|] eqn:G1; [|rej W].
+    destruct (get (objs e) o2) as [b|] eqn:G2; [|rej W].
+    destruct (negb (Bool.eqb (typed a) (typed b))) eqn:TT; [rej W|].
+    pose proof (sp_merge_spec (moved_val (reset_src a)) b (wf_empty _ _ _)) as Q. cbn zeta in Q.
+    destruct (sp_merge (moved_val (reset_src a)) b) as [[a1 b1] c1]. cbn [fst snd] in Q.
+    destruct Q as (W1 & H1 & V1 & T1 & S1 & A1). subst b1. cbn [hs moved_val reset_src app] in H1.
+    change (arr (moved_val (reset_src a))) with 0 in A1.
+    set (a2 := if typed a then set_val a1 (val b) else a1).
+    set (b2 := if typed a then moved_val (mkSp 0 [] (cap b) (typed b) (val b)) else mkSp 0 [] (cap b) (typed b) (val b)).
+    assert (wf_sp a2 /\ hs a2 = hs b /\ arr a2 = arr a1) as (W2 & H2 & A2)
+      by (unfold a2; destruct (typed a); [refine (conj (wf_same a1 _ eq_refl eq_refl eq_refl W1) (conj H1 eq_refl))|auto]).
+    assert (wf_sp b2 /\ hs b2 = [] /\ arr b2 = 0) as (W3 & H3 & A3)
+      by (unfold b2; destruct (typed a); (split; [exact (wf_empty _ _ _)|split; reflexivity])).
+    clearbody a2 b2.
+    pose proof (sp_merge_spec b2 a W3) as Q. cbn zeta in Q.
+    destruct (sp_merge b2 a) as [[b3 t3] c2]. cbn [fst snd] in Q. destruct Q as (W4 & H4 & V4 & T4 & _ & A4).
+    rewrite H3 in H4. cbn [app] in H4. rewrite A3 in A4.
+    set (b4 := if typed a then set_val b3 (val a) else b3).
+    assert (wf_sp b4 /\ hs b4 = hs a /\ arr b4 = arr b3) as (W5 & H5 & A5)
+      by (unfold b4; destruct (typed a); [refine (conj (wf_same b3 _ eq_refl eq_refl eq_refl W4) (conj H4 eq_refl))|auto]).
+    clearbody b4.
+    pose proof (put2_spec (objs e) o1 o2 (Some a2) (Some b4) E W W2 W5) as (PW & PC & PA).
+    rewrite G1, G2 in PC, PA. unfold step_ok, spush. cbn [fst snd]. refine (conj PW (conj _ _)).
+    + intros y. specialize (PC y). norm_goal. cbn [hso] in PC. rewrite H2, H5 in PC. destruct coro; rewrite ?count_z_nil; lia.
+    + norm_goal. cbn [arrs_o] in PA. unfold cadd. cbn [fst snd]. lia.
+  - rej W.
 Qed.
 
 (* ---------- runs of any length ---------- *)
@@ -387,21 +584,26 @@ Fixpoint handed_run (ops : list op) (os : list obs) : list Z :=
   | _, _ => []
   end.
 Definition resumed_run (os : list obs) : list Z := flat_map o_res os.
+Fixpoint spush_run (coro : bool) (e : env) (ops : list op) : list Z :=
+  match ops with
+  | [] => []
+  | x :: t => spush coro e x ++ spush_run coro (fst (step coro e x)) t
+  end.
 Fixpoint allocs_run (os : list obs) : Z := match os with [] => 0 | o :: t => fst (o_cost o) + allocs_run t end.
 Fixpoint frees_run (os : list obs) : Z := match os with [] => 0 | o :: t => snd (o_cost o) + frees_run t end.
 
 Lemma run_spec coro ops : forall e, wf_env e ->
   let r := run_from coro e ops in
   wf_env (snd r) /\
-  (forall y, (count_z y (handed_run ops (fst r)) + count_z y (held e) =
+  (forall y, (count_z y (handed_run ops (fst r)) + count_z y (held e) + count_z y (spush_run coro e ops) =
               count_z y (resumed_run (fst r)) + count_z y (held (snd r)))%nat) /\
   arrs (objs (snd r)) - arrs (objs e) = allocs_run (fst r) - frees_run (fst r) /\
   length (fst r) = length ops.
 Proof.
-  induction ops as [|x ops IH]; intros e W; cbn [run_from].
+  induction ops as [|x ops IH]; intros e W; cbn [run_from spush_run].
   - cbn [fst snd handed_run resumed_run flat_map allocs_run frees_run length].
-    refine (conj W (conj (fun y => eq_refl) (conj _ eq_refl))). lia.
-  - pose proof (step_spec coro e x W) as S. cbn zeta in S.
+    refine (conj W (conj _ (conj _ eq_refl))); [intros y; rewrite !count_z_nil|]; lia.
+  - pose proof (step_spec coro e x W) as S. unfold step_ok in S.
     destruct (step coro e x) as [e1 o]. cbn [fst snd] in S. destruct S as (W1 & C1 & A1).
     specialize (IH e1 W1). cbn zeta in IH.
     destruct (run_from coro e1 ops) as [os e2]. cbn [fst snd] in *.
@@ -416,41 +618,90 @@ Qed.
 Lemma wf_env0 : wf_env env0.
 Proof. intros i s G. unfold env0, get in G. cbn in G. destruct i; discriminate. Qed.
 
-(* every handle handed in is, at any moment, either resumed or still held — as multisets *)
-Theorem conservation coro ops e : wf_env e ->
-  let r := run_from coro e ops in
-  Permutation (handed_run ops (fst r) ++ held e) (resumed_run (fst r) ++ held (snd r)).
+(* the awaiter's handle is the only thing an await adds *)
+Lemma self_push_only s y : y <> driver -> count_z y (self_push s) = 0%nat.
 Proof.
-  intros W. pose proof (run_spec coro ops e W) as (_ & C & _). cbn zeta.
-  apply perm_of_counts. intros y. rewrite !count_z_app. apply C.
+  intros N. unfold self_push. assert (count_z y [driver] = 0%nat) as Z1.
+  { rewrite count_z_cons, count_z_nil. destruct (y =? driver) eqn:E; [lia|reflexivity]. }
+  destruct (sp_count s =? 0); [exact Z1|]. destruct (sp_pop s) as [s1 out].
+  destruct (existsb is_drv (olist out) || existsb is_drv (hs s1)); [reflexivity|exact Z1].
 Qed.
 
-(* closed runs: everything handed in has been resumed exactly as often as it was handed in *)
+Lemma spush_only coro e x y : y <> driver -> count_z y (spush coro e x) = 0%nat.
+Proof.
+  intros N. unfold spush. destruct coro; [|reflexivity].
+  destruct x; try reflexivity.
+  - destruct (get (objs e) o); [apply self_push_only; exact N|reflexivity].
+  - rewrite count_z_cons, count_z_nil. destruct (y =? driver) eqn:E; [lia|reflexivity].
+  - destruct (get (objs e) o); [apply self_push_only; exact N|reflexivity].
+Qed.
+
+Lemma spush_run_only coro ops : forall e y, y <> driver -> count_z y (spush_run coro e ops) = 0%nat.
+Proof.
+  induction ops as [|x ops IH]; intros e y N; cbn [spush_run]; [reflexivity|].
+  rewrite count_z_app, (spush_only coro e x y N), (IH _ y N). reflexivity.
+Qed.
+
+Lemma count_filter_not_drv y l : count_z y (filter not_drv l) = if y =? driver then 0%nat else count_z y l.
+Proof.
+  induction l as [|x l IH]; cbn [filter]; [rewrite count_z_nil; destruct (y =? driver); reflexivity|].
+  unfold not_drv at 1, is_drv. destruct (x =? driver) eqn:E; cbn [negb]; rewrite ?count_z_cons, IH;
+    destruct (y =? driver) eqn:F; destruct (y =? x) eqn:G; try reflexivity; lia.
+Qed.
+
+(* every handle handed in — and the awaiter once per await — is, at any moment, either resumed or still held *)
+Theorem conservation coro ops e : wf_env e ->
+  let r := run_from coro e ops in
+  Permutation (handed_run ops (fst r) ++ spush_run coro e ops ++ held e) (resumed_run (fst r) ++ held (snd r)).
+Proof.
+  intros W. pose proof (run_spec coro ops e W) as (_ & C & _). cbn zeta.
+  apply perm_of_counts. intros y. rewrite !count_z_app. specialize (C y). lia.
+Qed.
+
+(* the same for the ready coroutines alone (everything but the awaiter's own handle) *)
+Theorem conservation_ready coro ops e : wf_env e ->
+  let r := run_from coro e ops in
+  Permutation (filter not_drv (handed_run ops (fst r) ++ held e)) (filter not_drv (resumed_run (fst r) ++ held (snd r))).
+Proof.
+  intros W. pose proof (run_spec coro ops e W) as (_ & C & _). cbn zeta.
+  apply perm_of_counts. intros y. rewrite !count_filter_not_drv. destruct (y =? driver) eqn:E; [reflexivity|].
+  rewrite !count_z_app. specialize (C y). rewrite (spush_run_only coro ops e y) in C by lia. lia.
+Qed.
+
+(* closed runs: every ready coroutine has been resumed exactly as often as it was handed in *)
 Theorem all_resumed coro ops :
   let r := run_from coro env0 ops in
   held (snd r) = [] ->
-  Permutation (handed_run ops (fst r)) (resumed_run (fst r)).
+  Permutation (filter not_drv (handed_run ops (fst r))) (filter not_drv (resumed_run (fst r))).
 Proof.
-  cbn zeta. intros H. pose proof (conservation coro ops env0 wf_env0) as P. cbn zeta in P.
-  rewrite H in P. unfold held at 1 in P. cbn in P. rewrite !app_nil_r in P. exact P.
+  cbn zeta. intros H. pose proof (conservation_ready coro ops env0 wf_env0) as P. cbn zeta in P.
+  rewrite H in P. unfold held at 1 in P. cbn [env0 objs queue held_objs flat_map app] in P. rewrite !app_nil_r in P. exact P.
+Qed.
+
+Theorem resumed_as_often_as_handed coro ops h :
+  let r := run_from coro env0 ops in
+  held (snd r) = [] -> h <> driver ->
+  count_z h (resumed_run (fst r)) = count_z h (handed_run ops (fst r)).
+Proof.
+  cbn zeta. intros H N. pose proof (all_resumed coro ops H) as P.
+  pose proof (counts_of_perm _ _ P h) as Q. rewrite !count_filter_not_drv in Q.
+  destruct (h =? driver) eqn:E; [lia|]. symmetry. exact Q.
 Qed.
 
 Theorem resumed_exactly_once coro ops h :
   let r := run_from coro env0 ops in
-  held (snd r) = [] -> NoDup (handed_run ops (fst r)) -> In h (handed_run ops (fst r)) ->
+  held (snd r) = [] -> h <> driver -> count_z h (handed_run ops (fst r)) = 1%nat ->
   count_z h (resumed_run (fst r)) = 1%nat.
-Proof.
-  cbn zeta. intros H N I. pose proof (all_resumed coro ops H) as P.
-  rewrite <- (counts_of_perm _ _ P h). rewrite count_z_occ.
-  apply (proj1 (NoDup_count_occ' Z.eq_dec _) N). exact I.
-Qed.
+Proof. cbn zeta. intros H N I. rewrite (resumed_as_often_as_handed coro ops h H N). exact I. Qed.
 
 Theorem never_resumed_unless_handed coro ops h :
   let r := run_from coro env0 ops in
-  In h (resumed_run (fst r)) -> In h (handed_run ops (fst r)).
+  h <> driver -> In h (resumed_run (fst r)) -> In h (handed_run ops (fst r)).
 Proof.
-  cbn zeta. intros I. pose proof (run_spec coro ops env0 wf_env0) as (_ & C & _). specialize (C h).
-  apply count_z_In in I. apply count_z_In. unfold held at 1 in C. cbn in C. lia.
+  cbn zeta. intros N I. pose proof (run_spec coro ops env0 wf_env0) as (_ & C & _). specialize (C h).
+  rewrite (spush_run_only coro ops env0 h N) in C.
+  apply count_z_In in I. apply count_z_In. unfold held at 1 in C. cbn [env0 objs queue held_objs flat_map app] in C.
+  rewrite count_z_nil in C. lia.
 Qed.
 
 (* heap arrays: allocations - frees = arrays owned by live objects, hence nothing leaks *)
@@ -469,6 +720,14 @@ Proof.
   subst. cbn [arrs_o]. rewrite IH; [lia|]. intros i. specialize (H (S i)). exact H.
 Qed.
 
+Lemma held_objs_all_none l : (forall i, get l i = None) -> held_objs l = [].
+Proof.
+  induction l as [|o l IH]; intros H; cbn [held_objs flat_map]; [reflexivity|].
+  assert (o = None) as E.
+  { specialize (H 0%nat). unfold get in H. cbn in H. destruct o; [discriminate|reflexivity]. }
+  subst. cbn [hso app]. apply IH. intros i. specialize (H (S i)). exact H.
+Qed.
+
 (* representation invariant holds in every reachable state: count <= capacity, so no index is out of bounds *)
 Theorem capacity_sound coro ops i s :
   get (objs (snd (run_from coro env0 ops))) i = Some s ->
@@ -483,14 +742,14 @@ Qed.
 Theorem emptied_resumes_nothing coro e o s :
   wf_env e -> get (objs e) o = Some s -> cf s = 0 ->
   let r := step coro e (ODestroy o) in
-  o_res (snd r) = [] /\ o_cost (snd r) = (0, 0) /\ queue (fst r) = queue e.
+  o_st (snd r) = 0 /\ o_res (snd r) = [] /\ o_cost (snd r) = (0, 0) /\ queue (fst r) = queue e.
 Proof.
   intros W G C. cbn [step]. rewrite G. unfold suspend_now, sp_clear_internal.
   assert (sp_flag s = false) as F by (unfold sp_flag; rewrite C; reflexivity).
   assert (hs s = []) as HE.
-  { destruct (W _ _ G) as (_ & HL & _). rewrite C in HL. destruct (hs s); [reflexivity|].
-    unfold zlen in HL. cbn [length] in HL. change (0 / 2) with 0 in HL. lia. }
-  destruct coro; cbn [fst snd o_res o_cost queue]; rewrite F, HE; cbn [app]; rewrite ?app_nil_r; auto.
+  { apply zlen_nil_inv. destruct (W _ _ G) as (_ & HL & _). rewrite C in HL. change (0 / 2) with 0 in HL. exact HL. }
+  unfold has_drv. rewrite HE. cbn [existsb].
+  destruct coro; cbn [fst snd o_st o_res o_cost queue]; rewrite F, ?HE; cbn [app]; rewrite ?app_nil_r; auto.
 Qed.
 
 Definition src_of (x : op) : option nat :=
@@ -499,39 +758,229 @@ Definition src_of (x : op) : option nat :=
   | _ => None
   end.
 
+Ltac break_step :=
+  repeat match goal with
+  | |- context[match ?a with _ => _ end] => destruct a eqn:?
+  | H : context[match ?a with _ => _ end] |- _ => destruct a eqn:?
+  end.
+
 (* moved-from / merged-from / cleared / awaited objects are left with count_flag = 0 *)
 Theorem source_is_emptied coro e x o :
   src_of x = Some o -> o_st (snd (step coro e x)) = 0 ->
   exists s, get (objs (fst (step coro e x))) o = Some s /\ cf s = 0.
 Proof.
-  intros S A. destruct x; cbn [src_of] in S; try discriminate; injection S as ->; cbn [step] in *.
-  - destruct (Nat.eqb o1 o); [cbn in A; lia|].
-    destruct (get (objs e) o1) as [d|]; [|cbn in A; lia]. destruct (get (objs e) o) as [s|]; [|cbn in A; lia].
-    unfold sp_merge, sp_clear_internal in *. destruct (sp_add_all d (hs s)). cbn [fst snd objs].
-    eexists. rewrite get_put_same. split; reflexivity.
-  - destruct (Nat.eqb o1 o); [cbn in A; lia|].
-    destruct (get (objs e) o1) as [d|]; [cbn in A; lia|]. destruct (get (objs e) o) as [s|]; [|cbn in A; lia].
-    cbn [fst snd objs]. eexists. rewrite get_put_same. split; reflexivity.
-  - destruct (Nat.eqb o1 o); [cbn in A; lia|].
-    destruct (get (objs e) o1) as [d|]; [cbn in A; lia|]. destruct (get (objs e) o) as [s|]; [|cbn in A; lia].
-    cbn [fst snd objs]. eexists. rewrite get_put_same. split; reflexivity.
-  - destruct (get (objs e) o) as [s|]; [|cbn in A; lia].
-    unfold suspend_now, sp_clear_internal. destruct coro; cbn [fst snd objs];
-      eexists; rewrite get_put_same; split; reflexivity.
-  - destruct coro; cbn [negb] in *; [|cbn in A; lia].
-    destruct (get (objs e) o) as [s|]; [|cbn in A; lia].
-    destruct (sp_count s =? 0).
-    + unfold sp_clear_internal. cbn [fst snd objs]. eexists; rewrite get_put_same; split; reflexivity.
-    + destruct (sp_pop s). unfold sp_clear_internal. cbn [fst snd objs].
-      eexists; rewrite get_put_same; split; reflexivity.
-  - destruct (Nat.eqb o1 o); [cbn in A; lia|].
-    destruct (get (objs e) o1) as [d|]; [|cbn in A; lia]. destruct (get (objs e) o) as [s|]; [|cbn in A; lia].
-    unfold sp_merge, sp_clear_internal in *. destruct (sp_add_all d (hs s)). cbn [fst snd objs].
-    eexists. rewrite get_put_same. split; reflexivity.
+  intros S A. destruct x; cbn [src_of] in S; try discriminate; injection S as ->; cbn [step] in *;
+    unfold sp_merge, suspend_now, sp_clear_internal, await_suspend in *; break_step;
+    cbn [fst snd o_st rejected objs upd] in *; try discriminate;
+    eexists; rewrite get_put_same; (split; [reflexivity|]); try reflexivity;
+    repeat match goal with H : (_, _) = (_, _) |- _ => injection H as <- <- end; try reflexivity.
 Qed.
 
-(* the attached value of an object is never changed by any operation except an assignment to it *)
-Definition assigns (x : op) (i : nat) : Prop := match x with OMoveAssign a _ => a = i | _ => False end.
+(* ---------- the awaiting coroutine ---------- *)
+(* per op: an accepted await continues the awaiter exactly once, after everything else that ran; no other op resumes it *)
+Definition drv_step_ok (x : op) (ob : obs) : Prop :=
+  if (o_st ob =? 0) && awaits x
+  then exists t, o_res ob = t ++ [driver] /\ count_z driver t = 0%nat
+  else count_z driver (o_res ob) = 0%nat.
+
+Lemma has_drv_count s : has_drv s = false -> count_z driver (hs s) = 0%nat.
+Proof. apply count_drv_existsb. Qed.
+
+Lemma step_drv coro e x : wf_env e -> drv_step_ok x (snd (step coro e x)).
+Proof.
+  intros W. unfold wf_env in W. unfold drv_step_ok.
+  destruct x; cbn [step awaits]; rewrite ?andb_false_r, ?andb_true_r;
+    try (unfold sp_merge, suspend_now, sp_clear_internal; break_step; cbn [snd o_res rejected ok_obs o_st]; reflexivity).
+  - (* Pop *)
+    destruct (get (objs e) o) as [s|] eqn:G; [|reflexivity].
+    destruct (has_drv s) eqn:HD; [reflexivity|].
+    pose proof (sp_pop_spec s (W _ _ G)) as Q. cbn zeta in Q.
+    destruct (sp_pop s) as [s1 h]. cbn [fst snd] in Q. destruct Q as (_ & _ & _ & _ & _ & H1 & _).
+    cbn [snd ok_obs o_res]. apply has_drv_count in HD. rewrite H1, count_z_app in HD. lia.
+  - (* Clear *)
+    destruct (get (objs e) o) as [s|] eqn:G; [|reflexivity].
+    destruct (has_drv s) eqn:HD; [reflexivity|]. apply has_drv_count in HD.
+    unfold suspend_now, sp_clear_internal. destruct coro; cbn [snd o_res]; [reflexivity|exact HD].
+  - (* Destroy *)
+    destruct (get (objs e) o) as [s|] eqn:G; [|reflexivity].
+    destruct (has_drv s) eqn:HD; [reflexivity|]. apply has_drv_count in HD.
+    unfold suspend_now, sp_clear_internal. destruct coro; cbn [snd o_res]; [reflexivity|exact HD].
+  - (* Await *)
+    destruct coro; cbn [negb]; [|reflexivity].
+    destruct (get (objs e) o) as [s|] eqn:G; [|reflexivity].
+    destruct (sp_count s =? 0) eqn:C.
+    + unfold sp_clear_internal. cbn [snd ok_obs o_st o_res]. exists []. split; reflexivity.
+    + assert (sp_count s <> 0) as NZ by lia.
+      pose proof (await_suspend_spec (queue e) s (W _ _ G) NZ) as Q.
+      destruct (await_suspend (queue e) s) as [[[[[s2 q'] r] c] pu] po]. destruct Q as (_ & _ & _ & _ & T).
+      cbn [snd o_st o_res]. exact T.
+  - (* Flush *)
+    destruct coro; cbn [negb]; [|reflexivity].
+    pose proof (split_drv_spec (queue e ++ [driver])) as SP.
+    destruct (split_drv (queue e ++ [driver])) as [[pre post] found]. destruct SP as (_ & _ & CP & NF).
+    cbn [snd o_st o_res]. change (0 =? 0) with true. cbv iota.
+    destruct found.
+    + exists pre. split; [reflexivity|exact CP].
+    + specialize (NF eq_refl). rewrite count_z_app in NF. assert (count_z driver [driver] = 1%nat) by reflexivity. lia.
+  - (* AwaitL *)
+    destruct coro; cbn [negb]; [|reflexivity].
+    destruct (get (objs e) o) as [s|] eqn:G; [|reflexivity].
+    destruct (sp_count s =? 0) eqn:C.
+    + cbn [snd ok_obs o_st o_res]. exists []. split; reflexivity.
+    + assert (sp_count s <> 0) as NZ by lia.
+      pose proof (await_suspend_spec (queue e) s (W _ _ G) NZ) as Q.
+      destruct (await_suspend (queue e) s) as [[[[[s2 q'] r] c] pu] po]. destruct Q as (_ & _ & _ & _ & T).
+      cbn [snd o_st o_res]. exact T.
+Qed.
+
+(* the awaiter's own handle is in at most one place and never waits in the ready queue while the awaiter runs *)
+Definition drv_inv (e : env) : Prop := (count_z driver (held e) <= 1)%nat /\ count_z driver (queue e) = 0%nat.
+
+Lemma hs_le_held l o s y : get l o = Some s -> (count_z y (hs s) <= count_z y (held_objs l))%nat.
+Proof. intros G. pose proof (held_put y l o None) as P. rewrite G in P. cbn [hso] in P. rewrite count_z_nil in P. lia. Qed.
+
+Lemma count_drv_pos l : forallb (fun h => 0 <? h) l = true -> count_z driver l = 0%nat.
+Proof.
+  induction l as [|x l IH]; intros H; [reflexivity|]. cbn [forallb] in H. apply andb_true_iff in H as [A B].
+  rewrite count_z_cons, (IH B). unfold driver. destruct (0 =? x) eqn:E; [lia|reflexivity].
+Qed.
+
+Definition plain (x : op) : bool :=
+  match x with
+  | OClear _ | ODestroy _ | OAwait _ | OAwaitL _ | OFlush | OAddSelf _ => false
+  | _ => true
+  end.
+
+(* ops that leave the ready queue alone, do not await, and hand in nothing but positive handles *)
+Lemma step_plain coro e x : plain x = true ->
+  queue (fst (step coro e x)) = queue e /\ spush coro e x = [] /\
+  count_z driver (handed_op x (snd (step coro e x))) = 0%nat.
+Proof.
+  intros P. destruct x; try discriminate; (split; [|split]);
+    try (unfold spush; destruct coro; reflexivity);
+    try (cbn [step]; unfold sp_merge, sp_clear_internal; break_step; reflexivity);
+    unfold handed_op; cbn [step]; unfold sp_merge, sp_clear_internal; break_step;
+    cbn [snd o_st rejected ok_obs] in *; try discriminate; try reflexivity;
+    try (rewrite count_z_cons, count_z_nil; unfold driver; destruct (0 =? h) eqn:?; [lia|reflexivity]).
+  all: match goal with H : negb (forallb _ _) = false |- _ => apply negb_false_iff in H; apply count_drv_pos in H; exact H end.
+Qed.
+
+Lemma step_drv_inv coro e x : wf_env e -> drv_inv e -> drv_inv (fst (step coro e x)).
+Proof.
+  intros W (D1 & D2).
+  pose proof (step_spec coro e x W) as (_ & C & _). specialize (C driver).
+  pose proof (step_drv coro e x W) as R. unfold drv_step_ok in R.
+  assert (count_z driver (held_objs (objs e)) <= 1)%nat as DO by (unfold held in D1; rewrite count_z_app in D1; lia).
+  unfold wf_env in W. unfold drv_inv.
+  destruct (plain x) eqn:PL.
+  { destruct (step_plain coro e x PL) as (QE & SE & HE). rewrite SE, HE, count_z_nil in C.
+    rewrite QE. split; [lia|exact D2]. }
+  destruct x; try discriminate; cbn [step awaits] in *; rewrite ?andb_false_r, ?andb_true_r in R.
+  - (* Clear *)
+    destruct (get (objs e) o) as [s|] eqn:G; [|cbn [fst]; split; assumption].
+    destruct (has_drv s) eqn:HD; [cbn [fst]; split; assumption|]. apply has_drv_count in HD.
+    revert C R. unfold suspend_now, sp_clear_internal, handed_op, spush.
+    destruct coro; cbn [fst snd o_st o_res queue]; change (0 =? 0) with true; cbv iota; rewrite ?count_z_nil; intros C R.
+    + split; [lia|]. rewrite count_z_app. lia.
+    + split; [lia|exact D2].
+  - (* Destroy *)
+    destruct (get (objs e) o) as [s|] eqn:G; [|cbn [fst]; split; assumption].
+    destruct (has_drv s) eqn:HD; [cbn [fst]; split; assumption|]. apply has_drv_count in HD.
+    revert C R. unfold suspend_now, sp_clear_internal, handed_op, spush.
+    destruct coro; cbn [fst snd o_st o_res queue]; change (0 =? 0) with true; cbv iota; rewrite ?count_z_nil; intros C R.
+    + split; [lia|]. rewrite count_z_app. lia.
+    + split; [lia|exact D2].
+  - (* Await *)
+    destruct coro; cbn [negb] in *; [|cbn [fst]; split; assumption].
+    destruct (get (objs e) o) as [s|] eqn:G; [|cbn [fst]; split; assumption].
+    unfold handed_op, spush in C. rewrite G in C.
+    destruct (sp_count s =? 0) eqn:Z0.
+    + revert C R. unfold sp_clear_internal, self_push. rewrite Z0. cbn [fst snd o_st o_res ok_obs queue upd].
+      change (0 =? 0) with true. cbv iota. rewrite ?count_z_nil. intros C R. split; [lia|exact D2].
+    + assert (sp_count s <> 0) as NZ by lia.
+      pose proof (await_suspend_spec (queue e) s (W _ _ G) NZ) as Q.
+      pose proof (hs_le_held _ _ _ driver G) as LE.
+      destruct (await_suspend (queue e) s) as [[[[[s2 q'] r] c] pu] po]. destruct Q as (_ & _ & _ & Q4 & _).
+      destruct (Q4 D2 ltac:(lia)) as (R1 & Q0).
+      cbn [fst snd o_st o_res queue] in *. change (0 =? 0) with true in C. cbv iota in C. rewrite count_z_nil in C.
+      split; [|exact Q0].
+      assert (count_z driver (self_push s) <= 1)%nat as SPL.
+      { unfold self_push. destruct (sp_count s =? 0); [vm_compute; lia|]. destruct (sp_pop s).
+        destruct (existsb is_drv (olist o0) || existsb is_drv (hs s0)); vm_compute; lia. }
+      lia.
+  - (* Flush *)
+    destruct coro; cbn [negb] in *; [|cbn [fst]; split; assumption].
+    pose proof (split_drv_counts (queue e ++ [driver]) driver) as SC.
+    pose proof (split_drv_spec (queue e ++ [driver])) as SP.
+    destruct (split_drv (queue e ++ [driver])) as [[pre post] found]. destruct SP as (_ & _ & CP & NF).
+    unfold handed_op, spush in C. cbn [fst snd o_st o_res queue objs] in *. change (0 =? 0) with true in *. cbv iota in *.
+    rewrite count_z_app in SC. assert (count_z driver [driver] = 1%nat) as ONE by reflexivity.
+    destruct found.
+    + split; [|lia]. rewrite ?count_z_nil, ?count_z_app in C. lia.
+    + specialize (NF eq_refl). rewrite count_z_app in NF. lia.
+  - (* AwaitL *)
+    destruct coro; cbn [negb] in *; [|cbn [fst]; split; assumption].
+    destruct (get (objs e) o) as [s|] eqn:G; [|cbn [fst]; split; assumption].
+    unfold handed_op, spush in C. rewrite G in C.
+    destruct (sp_count s =? 0) eqn:Z0; [cbn [fst]; split; assumption|].
+    assert (sp_count s <> 0) as NZ by lia.
+    pose proof (await_suspend_spec (queue e) s (W _ _ G) NZ) as Q.
+    pose proof (hs_le_held _ _ _ driver G) as LE.
+    destruct (await_suspend (queue e) s) as [[[[[s2 q'] r] c] pu] po]. destruct Q as (_ & _ & _ & Q4 & _).
+    destruct (Q4 D2 ltac:(lia)) as (R1 & Q0).
+    cbn [fst snd o_st o_res queue] in *. change (0 =? 0) with true in C. cbv iota in C. rewrite count_z_nil in C.
+    split; [|exact Q0].
+    assert (count_z driver (self_push s) <= 1)%nat as SPL.
+    { unfold self_push. destruct (sp_count s =? 0); [vm_compute; lia|]. destruct (sp_pop s).
+      destruct (existsb is_drv (olist o0) || existsb is_drv (hs s0)); vm_compute; lia. }
+    lia.
+  - (* AddSelf *)
+    destruct coro; cbn [negb] in *; [|cbn [fst]; split; assumption].
+    destruct (existsb is_drv (held e)) eqn:HD; [cbn [fst]; split; assumption|]. apply count_drv_existsb in HD.
+    destruct (get (objs e) o) as [s|] eqn:G; [|cbn [fst]; split; assumption].
+    revert C R. unfold handed_op, spush. destruct (sp_add s driver). cbn [fst snd o_st o_res ok_obs queue upd].
+    change (0 =? 0) with true. cbv iota. rewrite ?count_z_nil. intros C R.
+    assert (count_z driver [driver] = 1%nat) as ONE by reflexivity. split; [lia|exact D2].
+Qed.
+
+Fixpoint drv_run_ok (ops : list op) (os : list obs) : Prop :=
+  match ops, os with
+  | x :: t, o :: u => drv_step_ok x o /\ drv_run_ok t u
+  | _, _ => True
+  end.
+
+(* in every history: each accepted await continues the awaiter exactly once (own handle in the list or not, at any
+   position), no other op ever resumes it *)
+Theorem awaiter_once coro ops : forall e, wf_env e -> drv_run_ok ops (fst (run_from coro e ops)).
+Proof.
+  induction ops as [|x ops IH]; intros e W; cbn [run_from]; [exact I|].
+  pose proof (step_spec coro e x W) as (W1 & _). pose proof (step_drv coro e x W) as D.
+  destruct (step coro e x) as [e1 o]. cbn [fst snd] in *. specialize (IH e1 W1).
+  destruct (run_from coro e1 ops) as [os e2]. cbn [fst snd drv_run_ok] in *. split; assumption.
+Qed.
+
+Lemma run_drv_inv coro ops : forall e, wf_env e -> drv_inv e -> drv_inv (snd (run_from coro e ops)).
+Proof.
+  induction ops as [|x ops IH]; intros e W D; cbn [run_from]; [exact D|].
+  pose proof (step_spec coro e x W) as (W1 & _). pose proof (step_drv_inv coro e x W D) as D1.
+  destruct (step coro e x) as [e1 o]. cbn [fst snd] in *. specialize (IH e1 W1 D1).
+  destruct (run_from coro e1 ops) as [os e2]. exact IH.
+Qed.
+
+(* ... and it is never left behind in the ready queue (no second, spurious resume later) *)
+Theorem awaiter_not_left_queued coro ops :
+  let e := snd (run_from coro env0 ops) in
+  ~ In driver (queue e) /\ (count_z driver (held e) <= 1)%nat.
+Proof.
+  cbn zeta. assert (drv_inv env0) as D0 by (split; vm_compute; lia).
+  destruct (run_drv_inv coro ops env0 wf_env0 D0) as (D1 & D2). split; [|exact D1].
+  intros I. apply count_z_In in I. lia.
+Qed.
+
+(* ---------- the attached value ---------- *)
+Definition vof (s : sp) : vinfo := (typed s, val s).
+Definition vrel (vs : list (option vinfo)) (l : list (option sp)) : Prop :=
+  forall i, get vs i = option_map vof (get l i).
 
 Lemma get_put_cases {A} (l : list (option A)) i j x :
   get (put l i x) j = if Nat.eqb i j then x else get l j.
@@ -539,62 +988,275 @@ Proof.
   destruct (Nat.eqb_spec i j); [subst; apply get_put_same|apply get_put_other; assumption].
 Qed.
 
-Theorem value_preserved coro e x i s s' :
-  wf_env e -> ~ assigns x i ->
-  get (objs e) i = Some s -> get (objs (fst (step coro e x))) i = Some s' -> val s' = val s.
+Lemma vrel_put vs l o s' : vrel vs l -> vrel (put vs o (option_map vof s')) (put l o s').
+Proof. intros R i. rewrite !get_put_cases. destruct (Nat.eqb o i); [reflexivity|apply R]. Qed.
+
+Lemma vrel_put2 vs l o1 o2 i1 i2 s1 s2 : vrel vs l -> i1 = option_map vof s1 -> i2 = option_map vof s2 ->
+  vrel (put (put vs o1 i1) o2 i2) (put (put l o1 s1) o2 s2).
+Proof. intros R -> ->. apply vrel_put, vrel_put, R. Qed.
+
+Lemma vrel_same vs l o s s1 : vrel vs l -> get l o = Some s -> vof s1 = vof s -> vrel vs (put l o (Some s1)).
 Proof.
-  intros W NA G G'.
-  destruct x; cbn [step assigns] in *;
-    repeat match type of G' with
-    | context[if Nat.eqb ?a ?b then _ else _] => destruct (Nat.eqb_spec a b); [cbn [fst] in G'; congruence|]
-    | context[if negb coro then _ else _] => destruct coro; cbn [negb] in G'; [|cbn [fst] in G'; congruence]
-    | context[match get (objs e) ?o with _ => _ end] =>
-        let Q := fresh "Q" in destruct (get (objs e) o) eqn:Q; try (cbn [fst] in G'; congruence)
-    end.
-  - cbn [fst objs] in G'. rewrite get_put_cases in G'. destruct (Nat.eqb_spec o i); congruence.
-  - cbn [fst objs] in G'. rewrite get_put_cases in G'. destruct (Nat.eqb_spec o i); congruence.
-  - pose proof (sp_add_val s0 h) as V. destruct (sp_add s0 h). cbn [fst objs] in *.
-    rewrite get_put_cases in G'. destruct (Nat.eqb_spec o i); congruence.
-  - pose proof (sp_add_all_spec s0 (hs s1) (W _ _ Q)) as (_ & _ & V & _).
-    unfold sp_merge, sp_clear_internal in G'. destruct (sp_add_all s0 (hs s1)). cbn [fst snd objs] in *.
-    rewrite !get_put_cases in G'. destruct (Nat.eqb_spec o2 i); [|destruct (Nat.eqb_spec o1 i)]; subst.
-    + injection G' as <-. cbn [val]. congruence.
-    + congruence.
-    + congruence.
-  - cbn [fst objs] in G'. rewrite !get_put_cases in G'.
-    destruct (Nat.eqb_spec o2 i); [|destruct (Nat.eqb_spec o1 i)]; subst; try congruence.
-    injection G' as <-. cbn [val]. congruence.
-  - cbn [fst objs] in G'. rewrite !get_put_cases in G'.
-    destruct (Nat.eqb_spec o2 i); [|destruct (Nat.eqb_spec o1 i)]; subst; try congruence.
-    injection G' as <-. cbn [val]. congruence.
-  - pose proof (sp_pop_spec s0 (W _ _ Q)) as (_ & V & _). destruct (sp_pop s0). cbn [fst snd objs] in *.
-    rewrite get_put_cases in G'. destruct (Nat.eqb_spec o i); congruence.
-  - unfold suspend_now, sp_clear_internal in G'. destruct coro; cbn [fst snd objs] in G';
-      rewrite get_put_cases in G'; destruct (Nat.eqb_spec o i); subst; try congruence;
-      injection G' as <-; cbn [val]; congruence.
-  - unfold suspend_now, sp_clear_internal in G'. destruct coro; cbn [fst snd objs] in G';
-      rewrite get_put_cases in G'; destruct (Nat.eqb_spec o i); subst; congruence.
-  - destruct (sp_count s0 =? 0).
-    + unfold sp_clear_internal in G'. cbn [fst snd objs] in G'. rewrite get_put_cases in G'.
-      destruct (Nat.eqb_spec o i); subst; try congruence. injection G' as <-; cbn [val]; congruence.
-    + pose proof (sp_pop_spec s0 (W _ _ Q)) as (_ & V & _). destruct (sp_pop s0).
-      unfold sp_clear_internal in G'. cbn [fst snd objs] in *. rewrite get_put_cases in G'.
-      destruct (Nat.eqb_spec o i); subst; try congruence. injection G' as <-; cbn [val]; congruence.
-  - cbn [fst objs] in G'. congruence.
-  - pose proof (sp_add_all_spec s0 (hs s1) (W _ _ Q)) as (_ & _ & V & _).
-    unfold sp_merge, sp_clear_internal in G'. destruct (sp_add_all s0 (hs s1)). cbn [fst snd objs] in *.
-    rewrite !get_put_cases in G'. destruct (Nat.eqb_spec o2 i); [|destruct (Nat.eqb_spec o1 i)]; subst.
-    + injection G' as <-. cbn [val]. congruence.
-    + exfalso. apply NA. reflexivity.
-    + congruence.
-  - cbn [fst] in G'. congruence.
+  intros R G E i. rewrite get_put_cases. destruct (Nat.eqb_spec o i); [subst|apply R].
+  rewrite R, G. cbn [option_map]. congruence.
 Qed.
 
-(* the value a typed suspend point is constructed with is the value it holds *)
-Theorem constructed_value coro e o v :
-  get (objs e) o = None ->
-  (exists s, get (objs (fst (step coro e (ONewV o v)))) o = Some s /\ val s = v) /\
-  (forall h, exists s, get (objs (fst (step coro e (ONewH o h v)))) o = Some s /\ val s = v).
+Lemma vrel_vget vs l o s : vrel vs l -> get l o = Some s -> vget vs o = val s.
+Proof. intros R G. unfold vget. rewrite R, G. reflexivity. Qed.
+
+Definition vstep_ok (vs : list (option vinfo)) (x : op) (e : env) (r : env * obs) : Prop :=
+  if o_st (snd r) =? 0
+  then vrel (fst (vstep vs x)) (objs (fst r)) /\ o_val (snd r) = snd (vstep vs x)
+  else fst r = e.
+
+Lemma vof_eq s s1 : typed s1 = typed s -> val s1 = val s -> vof s1 = vof s.
+Proof. unfold vof. congruence. Qed.
+
+(* the model shows, after every accepted op, exactly the value the independent account `vstep` predicts *)
+Lemma step_vals coro e x vs : wf_env e -> vrel vs (objs e) -> vstep_ok vs x e (step coro e x).
 Proof.
-  intros G. cbn [step]. rewrite G. cbn [fst objs]. split; [|intros h]; eexists; rewrite get_put_same; split; reflexivity.
+  intros W R. unfold wf_env in W. unfold vstep_ok.
+  destruct x as [o v|o h v|o h|o1 o2|o1 o2|o1 o2 v|o|o|o|o| |o1 o2|o t v l|o|o h|o k|o|o|o1 o2| ]; cbn [step vstep].
+  - destruct (get (objs e) o) eqn:G; [reflexivity|]. cbn [fst snd o_st ok_obs o_val objs upd]. split; [|reflexivity].
+    apply (vrel_put vs (objs e) o (Some (mkSp 0 [] 0 true v)) R).
+  - destruct (h <=? 0); [reflexivity|]. destruct (get (objs e) o) eqn:G; [reflexivity|].
+    cbn [fst snd o_st ok_obs o_val objs upd]. split; [|reflexivity].
+    apply (vrel_put vs (objs e) o (Some (mkSp 2 [h] 0 true v)) R).
+  - destruct (h <=? 0); [reflexivity|]. destruct (get (objs e) o) as [s|] eqn:G; [|reflexivity].
+    pose proof (sp_add_spec s h (W _ _ G)) as Q. cbn zeta in Q. destruct (sp_add s h) as [s1 c].
+    cbn [fst snd] in Q. destruct Q as (_ & _ & V1 & T1 & _).
+    cbn [fst snd o_st ok_obs o_val objs upd]. split.
+    + apply (vrel_same _ _ _ s); auto using vof_eq.
+    + rewrite (vrel_vget _ _ _ _ R G). exact V1.
+  - destruct (Nat.eqb_spec o1 o2) as [E|E]; [reflexivity|].
+    destruct (get (objs e) o1) as [d|] eqn:G1; [|reflexivity]. destruct (get (objs e) o2) as [s|] eqn:G2; [|reflexivity].
+    pose proof (sp_merge_spec d s (W _ _ G1)) as Q. cbn zeta in Q. destruct (sp_merge d s) as [[d1 s1] c].
+    cbn [fst snd] in Q. destruct Q as (_ & _ & V1 & T1 & S1 & _). subst s1.
+    cbn [fst snd o_st ok_obs o_val objs upd]. split.
+    + apply (vrel_same _ _ _ s); [apply (vrel_same _ _ _ d); auto using vof_eq| rewrite get_put_other by exact E; exact G2|reflexivity].
+    + rewrite (vrel_vget _ _ _ _ R G1). exact V1.
+  - destruct (Nat.eqb_spec o1 o2) as [E|E]; [reflexivity|].
+    destruct (get (objs e) o1) as [d|] eqn:G1; [reflexivity|]. destruct (get (objs e) o2) as [s|] eqn:G2; [|reflexivity].
+    cbn [fst snd o_st ok_obs o_val objs upd].
+    assert (get vs o2 = Some (vof s)) as V2 by (rewrite R, G2; reflexivity). rewrite V2. split.
+    + apply (vrel_put _ _ o2 (Some (moved_val (reset_src s)))). apply (vrel_put _ _ o1 (Some s)). exact R.
+    + unfold vget. rewrite get_put_other, get_put_same by (intro Q; apply E; symmetry; exact Q). reflexivity.
+  - destruct (Nat.eqb_spec o1 o2) as [E|E]; [reflexivity|].
+    destruct (get (objs e) o1) as [d|] eqn:G1; [reflexivity|]. destruct (get (objs e) o2) as [s|] eqn:G2; [|reflexivity].
+    cbn [fst snd o_st ok_obs o_val objs upd]. split; [|reflexivity].
+    apply (vrel_same _ _ _ s); [|rewrite get_put_other by exact E; exact G2|reflexivity].
+    apply (vrel_put _ _ o1 (Some (mkSp (cf s) (hs s) (cap s) true v)) R).
+  - destruct (get (objs e) o) as [s|] eqn:G; [|reflexivity]. destruct (has_drv s); [reflexivity|].
+    pose proof (sp_pop_spec s (W _ _ G)) as Q. cbn zeta in Q. destruct (sp_pop s) as [s1 h].
+    cbn [fst snd] in Q. destruct Q as (_ & V1 & T1 & _).
+    cbn [fst snd o_st ok_obs o_val objs upd]. split.
+    + apply (vrel_same _ _ _ s); auto using vof_eq.
+    + rewrite (vrel_vget _ _ _ _ R G). exact V1.
+  - destruct (get (objs e) o) as [s|] eqn:G; [|reflexivity]. destruct (has_drv s); [reflexivity|].
+    unfold suspend_now, sp_clear_internal. destruct coro; cbn [fst snd o_st o_val objs val]; (split;
+      [apply (vrel_same _ _ _ s); auto|rewrite (vrel_vget _ _ _ _ R G); reflexivity]).
+  - destruct (get (objs e) o) as [s|] eqn:G; [|reflexivity]. destruct (has_drv s); [reflexivity|].
+    unfold suspend_now, sp_clear_internal. destruct coro; cbn [fst snd o_st o_val objs val]; (split;
+      [apply (vrel_put _ _ o None R)|rewrite (vrel_vget _ _ _ _ R G); reflexivity]).
+  - destruct coro; cbn [negb]; [|reflexivity]. destruct (get (objs e) o) as [s|] eqn:G; [|reflexivity].
+    assert (get vs o = Some (vof s)) as V2 by (rewrite R, G; reflexivity).
+    destruct (sp_count s =? 0).
+    + unfold sp_clear_internal. cbn [fst snd o_st ok_obs o_val objs upd]. rewrite V2. split.
+      * apply (vrel_put _ _ o (Some (moved_val (reset_src s))) R).
+      * symmetry. apply (vrel_vget _ _ _ _ R G).
+    + destruct (await_suspend (queue e) s) as [[[[[s2 q'] r] c] pu] po].
+      cbn [fst snd o_st o_val objs]. rewrite V2. split.
+      * apply (vrel_put _ _ o (Some (moved_val (reset_src s))) R).
+      * symmetry. apply (vrel_vget _ _ _ _ R G).
+  - destruct coro; cbn [negb]; [|reflexivity].
+    destruct (split_drv (queue e ++ [driver])) as [[pre post] found]. cbn [fst snd o_st o_val objs]. split; [exact R|reflexivity].
+  - destruct (Nat.eqb_spec o1 o2) as [E|E]; [reflexivity|].
+    destruct (get (objs e) o1) as [d|] eqn:G1; [|reflexivity]. destruct (get (objs e) o2) as [s|] eqn:G2; [|reflexivity].
+    destruct (typed d && negb (typed s)) eqn:TT; [reflexivity|].
+    pose proof (sp_merge_spec d s (W _ _ G1)) as Q. cbn zeta in Q. destruct (sp_merge d s) as [[d1 s1] c].
+    cbn [fst snd] in Q. destruct Q as (_ & _ & V1 & T1 & S1 & _). subst s1.
+    assert (get vs o1 = Some (vof d)) as VA by (rewrite R, G1; reflexivity).
+    assert (get vs o2 = Some (vof s)) as VB by (rewrite R, G2; reflexivity).
+    assert (vof d1 = vof d) as VD by (apply vof_eq; assumption).
+    rewrite VA. cbn [vtyped vof]. cbn [fst snd o_st ok_obs o_val objs upd].
+    destruct (typed d) eqn:TD.
+    + assert (typed s = true) as TS by (destruct (typed s); [reflexivity|discriminate]).
+      rewrite VB. cbn [fst snd]. split.
+      * apply vrel_put2; [exact R| |]; unfold vof, vmoved, set_val, moved_val; cbn [option_map typed val]; try reflexivity.
+        rewrite TS, T1. reflexivity.
+      * unfold vget. rewrite get_put_other, get_put_same by (intro Q; apply E; symmetry; exact Q). reflexivity.
+    + cbn [fst snd]. split.
+      * apply (vrel_same _ _ _ s); [apply (vrel_same _ _ _ d); auto| rewrite get_put_other by exact E; exact G2|reflexivity].
+      * rewrite (vrel_vget _ _ _ _ R G1). exact V1.
+  - destruct (negb (forallb (fun h => 0 <? h) l)); [reflexivity|]. destruct (get (objs e) o) eqn:G; [reflexivity|].
+    destruct (sp_add_all (mkSp 0 [] 0 false 0) (rev l)) as [s1 c].
+    cbn [fst snd o_st o_val objs upd val]. split; [|reflexivity].
+    apply (vrel_put vs (objs e) o (Some (mkSp (cf s1) (hs s1) (cap s1) t (if t then v else 0))) R).
+  - destruct (get (objs e) o) eqn:G; [reflexivity|]. cbn [fst snd o_st ok_obs o_val objs upd]. split; [|reflexivity].
+    apply (vrel_put vs (objs e) o (Some (mkSp 0 [] 0 false 0)) R).
+  - destruct (h <=? 0); [reflexivity|]. destruct (get (objs e) o) eqn:G; [reflexivity|].
+    cbn [fst snd o_st ok_obs o_val objs upd]. split; [|reflexivity].
+    apply (vrel_put vs (objs e) o (Some (mkSp 2 [h] 0 false 0)) R).
+  - destruct (negb ((k =? 0) || (k =? 1))); [reflexivity|].
+    destruct (get (objs e) o) as [s|] eqn:G; [|reflexivity]. destruct (typed s); [|reflexivity].
+    cbn [fst snd o_st ok_obs o_val]. split; [exact R|]. symmetry. apply (vrel_vget _ _ _ _ R G).
+  - destruct coro; cbn [negb]; [|reflexivity]. destruct (get (objs e) o) as [s|] eqn:G; [|reflexivity].
+    destruct (sp_count s =? 0) eqn:C.
+    + cbn [fst snd o_st ok_obs o_val]. split; [exact R|]. symmetry. apply (vrel_vget _ _ _ _ R G).
+    + assert (sp_count s <> 0) as NZ by lia.
+      pose proof (await_suspend_spec (queue e) s (W _ _ G) NZ) as Q.
+      destruct (await_suspend (queue e) s) as [[[[[s2 q'] r] c] pu] po]. destruct Q as (S2 & _). subst s2.
+      cbn [fst snd o_st o_val objs]. split; [|symmetry; apply (vrel_vget _ _ _ _ R G)].
+      apply (vrel_same _ _ _ s); auto.
+  - destruct coro; cbn [negb]; [|reflexivity]. destruct (existsb is_drv (held e)); [reflexivity|].
+    destruct (get (objs e) o) as [s|] eqn:G; [|reflexivity].
+    pose proof (sp_add_spec s driver (W _ _ G)) as Q. cbn zeta in Q. destruct (sp_add s driver) as [s1 c].
+    cbn [fst snd] in Q. destruct Q as (_ & _ & V1 & T1 & _).
+    cbn [fst snd o_st ok_obs o_val objs upd]. split.
+    + apply (vrel_same _ _ _ s); auto using vof_eq.
+    + rewrite (vrel_vget _ _ _ _ R G). exact V1.
+  - destruct (Nat.eqb_spec o1 o2) as [E|E]; [reflexivity|].
+    destruct (get (objs e) o1) as [a|] eqn:G1; [|reflexivity]. destruct (get (objs e) o2) as [b|] eqn:G2; [|reflexivity].
+    destruct (negb (Bool.eqb (typed a) (typed b))) eqn:TT; [reflexivity|].
+    assert (typed b = typed a) as TB by (destruct (typed a), (typed b); try reflexivity; discriminate).
+    pose proof (sp_merge_spec (moved_val (reset_src a)) b (wf_empty _ _ _)) as Q. cbn zeta in Q.
+    destruct (sp_merge (moved_val (reset_src a)) b) as [[a1 b1] c1]. cbn [fst snd] in Q.
+    destruct Q as (_ & _ & V1 & T1 & S1 & _). subst b1.
+    assert (get vs o1 = Some (vof a)) as VA by (rewrite R, G1; reflexivity).
+    assert (get vs o2 = Some (vof b)) as VB by (rewrite R, G2; reflexivity).
+    rewrite VA, VB. cbn [vtyped vof].
+    destruct (typed a) eqn:TA.
+    + pose proof (sp_merge_spec (moved_val (mkSp 0 [] (cap b) (typed b) (val b))) a (wf_empty _ _ _)) as Q. cbn zeta in Q.
+      destruct (sp_merge (moved_val (mkSp 0 [] (cap b) (typed b) (val b))) a) as [[b3 t3] c2]. cbn [fst snd] in Q.
+      destruct Q as (_ & _ & V3 & T3 & _ & _).
+      cbn [fst snd o_st ok_obs o_val objs upd]. split.
+      * apply vrel_put2; [exact R| |]; unfold vof, set_val; cbn [option_map typed val moved_val reset_src] in *; congruence.
+      * unfold vget. rewrite get_put_other, get_put_same by (intro Q; apply E; symmetry; exact Q). reflexivity.
+    + pose proof (sp_merge_spec (mkSp 0 [] (cap b) (typed b) (val b)) a (wf_empty _ _ _)) as Q. cbn zeta in Q.
+      destruct (sp_merge (mkSp 0 [] (cap b) (typed b) (val b)) a) as [[b3 t3] c2]. cbn [fst snd] in Q.
+      destruct Q as (_ & _ & V3 & T3 & _ & _).
+      cbn [fst snd o_st ok_obs o_val objs upd]. cbn [typed val moved_val reset_src] in *. rewrite TA in V1. split.
+      * apply (vrel_same _ _ _ b); [apply (vrel_same _ _ _ a); auto using vof_eq| rewrite get_put_other by exact E; exact G2|].
+        apply vof_eq; cbn [typed val] in *; congruence.
+      * rewrite (vrel_vget _ _ _ _ R G1). exact V1.
+  - reflexivity.
+Qed.
+
+(* ---------- the trace oracle accepts every closed run of the model ---------- *)
+Lemma obs_ok_enc o : obs_ok (encode_obs o) = (o_st o =? 0).
+Proof. unfold obs_ok, encode_obs. destruct (o_st o); reflexivity. Qed.
+Lemma obs_res_enc o : obs_res (encode_obs o) = o_res o.
+Proof. reflexivity. Qed.
+Lemma obs_val_enc o : obs_val (encode_obs o) = o_val o.
+Proof. reflexivity. Qed.
+Lemma obs_allocs_enc o : obs_allocs (encode_obs o) = fst (o_cost o).
+Proof. reflexivity. Qed.
+Lemma obs_frees_enc o : obs_frees (encode_obs o) = snd (o_cost o).
+Proof. reflexivity. Qed.
+
+Lemma run_vals coro ops : forall e vs, wf_env e -> vrel vs (objs e) ->
+  vals_ok vs ops (map encode_obs (fst (run_from coro e ops))) = true.
+Proof.
+  induction ops as [|x ops IH]; intros e vs W R; cbn [run_from]; [reflexivity|].
+  pose proof (step_spec coro e x W) as (W1 & _). pose proof (step_vals coro e x vs W R) as V. unfold vstep_ok in V.
+  destruct (step coro e x) as [e1 o]. cbn [fst snd] in *.
+  pose proof (IH e1) as IH1.
+  destruct (run_from coro e1 ops) as [os e2]. cbn [fst snd map vals_ok] in *.
+  rewrite obs_ok_enc, obs_val_enc. destruct (o_st o =? 0).
+  - destruct (vstep vs x) as [vs1 v]. cbn [fst snd] in V. destruct V as (R1 & EV).
+    rewrite EV, Z.eqb_refl. cbn [andb]. apply IH1; assumption.
+  - subst e1. apply IH1; assumption.
+Qed.
+
+Lemma filter_not_drv_pos l : forallb (fun h => 0 <? h) l = true -> filter not_drv l = l.
+Proof.
+  induction l as [|x l IH]; intros H; [reflexivity|]. cbn [forallb] in H. apply andb_true_iff in H as [A B].
+  cbn [filter]. unfold not_drv at 1, is_drv, driver. destruct (x =? 0) eqn:E; [lia|]. cbn [negb]. rewrite (IH B). reflexivity.
+Qed.
+
+Lemma handed_of_filter coro e x :
+  let ob := snd (step coro e x) in
+  handed_of x (o_st ob =? 0) = filter not_drv (handed_op x ob).
+Proof.
+  cbn zeta. unfold handed_of, handed_op.
+  destruct (o_st (snd (step coro e x)) =? 0) eqn:A; [|reflexivity].
+  destruct x; try reflexivity; cbn [step] in A.
+  - destruct (h <=? 0) eqn:HP; [discriminate|]. symmetry. apply (filter_not_drv_pos [h]). cbn [forallb]. lia.
+  - destruct (h <=? 0) eqn:HP; [discriminate|]. symmetry. apply (filter_not_drv_pos [h]). cbn [forallb]. lia.
+  - destruct (negb (forallb (fun h => 0 <? h) l)) eqn:FP; [discriminate|]. apply negb_false_iff in FP.
+    symmetry. apply filter_not_drv_pos. exact FP.
+  - destruct (h <=? 0) eqn:HP; [discriminate|]. symmetry. apply (filter_not_drv_pos [h]). cbn [forallb]. lia.
+Qed.
+
+Lemma filter_app {A} (f : A -> bool) a b : filter f (a ++ b) = filter f a ++ filter f b.
+Proof. induction a as [|x a IH]; cbn [filter app]; [reflexivity|]. destruct (f x); cbn [app]; rewrite IH; reflexivity. Qed.
+
+Lemma run_handed coro ops : forall e,
+  flat_map (fun p => handed_of (fst p) (obs_ok (snd p))) (combine ops (map encode_obs (fst (run_from coro e ops))))
+  = filter not_drv (handed_run ops (fst (run_from coro e ops))).
+Proof.
+  induction ops as [|x ops IH]; intros e; cbn [run_from]; [reflexivity|].
+  pose proof (handed_of_filter coro e x) as H. cbn zeta in H.
+  destruct (step coro e x) as [e1 o]. cbn [snd] in H. specialize (IH e1).
+  destruct (run_from coro e1 ops) as [os e2]. cbn [fst snd map combine flat_map handed_run] in *.
+  rewrite obs_ok_enc, H, IH, filter_app. reflexivity.
+Qed.
+
+Lemma flat_map_res_enc os : flat_map obs_res (map encode_obs os) = resumed_run os.
+Proof. induction os as [|o os IH]; cbn [map flat_map resumed_run]; [reflexivity|]. rewrite IH. reflexivity. Qed.
+
+Lemma sum_allocs_enc os : sumz (map obs_allocs (map encode_obs os)) = allocs_run os.
+Proof. induction os as [|o os IH]; cbn [map sumz allocs_run]; [reflexivity|]. rewrite IH, obs_allocs_enc. reflexivity. Qed.
+Lemma sum_frees_enc os : sumz (map obs_frees (map encode_obs os)) = frees_run os.
+Proof. induction os as [|o os IH]; cbn [map sumz frees_run]; [reflexivity|]. rewrite IH, obs_frees_enc. reflexivity. Qed.
+
+Lemma drv_ok_of x o : drv_step_ok x o -> drv_ok x (o_st o =? 0) (o_res o) = true.
+Proof.
+  unfold drv_step_ok, drv_ok. destruct ((o_st o =? 0) && awaits x).
+  - intros (t & E & C). rewrite E, rev_app_distr. cbn [rev app]. unfold is_drv at 1. rewrite Z.eqb_refl. cbn [andb].
+    apply forallb_not_drv_count. rewrite count_z_rev. exact C.
+  - intros C. apply forallb_not_drv_count. exact C.
+Qed.
+
+Lemma run_drv_ok ops : forall os, drv_run_ok ops os -> drv_all_ok ops (map encode_obs os) = true.
+Proof.
+  induction ops as [|x ops IH]; intros [|o os] D; try reflexivity.
+  cbn [drv_run_ok map drv_all_ok] in *. destruct D as (D1 & D2).
+  rewrite obs_ok_enc, obs_res_enc, (drv_ok_of _ _ D1), (IH _ D2). reflexivity.
+Qed.
+
+(* closed = every object destroyed and the ready queue drained *)
+Theorem oracle_sound coro ops :
+  let r := run_from coro env0 (map decode ops) in
+  (forall i, get (objs (snd r)) i = None) -> queue (snd r) = [] ->
+  sp_oracle ops (sp_run coro ops) = true.
+Proof.
+  cbn zeta. intros NO QE. unfold sp_oracle, sp_run.
+  set (dops := map decode ops) in *.
+  pose proof (run_spec coro dops env0 wf_env0) as (_ & _ & _ & L).
+  assert (held (snd (run_from coro env0 dops)) = []) as HE
+    by (unfold held; rewrite (held_objs_all_none _ NO), QE; reflexivity).
+  pose proof (all_resumed coro dops HE) as P.
+  pose proof (no_leak coro dops) as NL. cbn zeta in NL. rewrite (arrs_all_none _ NO) in NL.
+  pose proof (awaiter_once coro dops env0 wf_env0) as AO.
+  pose proof (run_vals coro dops env0 [] wf_env0) as RV.
+  rewrite run_handed, flat_map_res_enc, sum_allocs_enc, sum_frees_enc.
+  rewrite map_length, L. unfold dops at 1. rewrite map_length, Nat.eqb_refl.
+  rewrite (perm_b_complete _ _ P), (run_drv_ok _ _ AO).
+  rewrite RV by (intros i; unfold env0, get; cbn; destruct i; reflexivity).
+  cbn [andb]. rewrite andb_true_r. lia.
+Qed.
+
+(* reading the value (either conversion) returns the stored value and changes nothing at all *)
+Theorem read_changes_nothing coro e o k s :
+  get (objs e) o = Some s -> typed s = true -> k = 0 \/ k = 1 ->
+  step coro e (ORead o k) = (e, ok_obs (sp_count s) (val s) (0, 0) []).
+Proof.
+  intros G T K. cbn [step]. rewrite G, T. destruct K; subst; reflexivity.
+Qed.
+
+Theorem values_as_supplied coro ops :
+  vals_ok [] ops (map encode_obs (fst (run_from coro env0 ops))) = true.
+Proof.
+  apply run_vals; [exact wf_env0|]. intros i. unfold env0, get. cbn. destruct i; reflexivity.
 Qed.
